@@ -3,6 +3,7 @@
    RFC 8259 recognizer for whole documents.  Statements used by Properties/Properties_C05b.v are at the end. *)
 From Flatcc.Json Require Import Codecs CodecsProofs ScannerProofs ParserModel ParserProofs PrinterText.
 From Flatcc.Num Require NumModel NumProofs.
+From Flatcc.Builder Require Import VMem TableLayout.
 From Coq Require Import ZifyBool.
 Local Open Scope Z_scope.
 Ltac Zify.zify_post_hook ::= Z.div_mod_to_equations.
@@ -237,7 +238,7 @@ Qed.
 
 Lemma delim_start_empty fl o cl e b c i ws ws2 rest :
   tail_is b i (o :: ws ++ cl :: ws2 ++ rest) -> wsp ws -> wsp ws2 -> 32 < cl < 128 -> stop rest -> cok fl c ->
-  exists c' p, delim_start o cl e b c i = Ok c' p false /\ cok fl c' /\ tail_is b p rest.
+  exists c' p, delim_start o cl e b c i = Ok c' p false /\ cok fl c' /\ tail_is b p rest /\ p = i + 1 + len ws + 1 + len ws2.
 Proof.
   intros H Hw Hw2 Hcl Hs Hc. apply tail_is_cons in H. destruct H as (Hg & Ht & Hi & _).
   unfold delim_start. replace (i =? blen b) with false by lia. rewrite Hg, Z.eqb_refl. cbn [negb].
@@ -250,7 +251,7 @@ Qed.
 
 Lemma delim_end_more fl cl e b c i ws ws2 y r :
   tail_is b i (ws ++ 44 :: ws2 ++ y :: r) -> wsp ws -> wsp ws2 -> 32 < y < 128 -> y <> cl -> cok fl c ->
-  exists c' p, delim_end cl e b c i = Ok c' p true /\ cok fl c' /\ tail_is b p (y :: r).
+  exists c' p, delim_end cl e b c i = Ok c' p true /\ cok fl c' /\ tail_is b p (y :: r) /\ p = i + len ws + 1 + len ws2.
 Proof.
   intros H Hw Hw2 Hy Hne Hc. unfold delim_end.
   destruct (space_ws fl b c i ws (44 :: ws2 ++ y :: r) H Hw ltac:(cbn; lia) Hc) as (c1 & -> & Hc1 & Ht1).
@@ -264,7 +265,7 @@ Qed.
 
 Lemma delim_end_close fl cl e b c i ws ws2 rest :
   tail_is b i (ws ++ cl :: ws2 ++ rest) -> wsp ws -> wsp ws2 -> 32 < cl < 128 -> cl <> 44 -> stop rest -> cok fl c ->
-  exists c' p, delim_end cl e b c i = Ok c' p false /\ cok fl c' /\ tail_is b p rest.
+  exists c' p, delim_end cl e b c i = Ok c' p false /\ cok fl c' /\ tail_is b p rest /\ p = i + len ws + 1 + len ws2.
 Proof.
   intros H Hw Hw2 Hcl Hne Hs Hc. unfold delim_end.
   destruct (space_ws fl b c i ws (cl :: ws2 ++ rest) H Hw ltac:(cbn; lia) Hc) as (c1 & -> & Hc1 & Ht1).
@@ -331,7 +332,7 @@ Qed.
 
 Lemma match_symbol_quoted fl b c i nm ws rest : cunq c = false ->
   tail_is b i (nm ++ 34 :: 58 :: ws ++ rest) -> wsp ws -> stop rest -> cok fl c ->
-  exists c' p, match_symbol b c i (lenZ nm) = Ok c' p tt /\ cok fl c' /\ tail_is b p rest /\ p <> i.
+  exists c' p, match_symbol b c i (lenZ nm) = Ok c' p tt /\ cok fl c' /\ tail_is b p rest /\ p = i + len nm + 2 + len ws.
 Proof.
   intros Hu H Hw Hs Hc. apply tail_is_app in H. apply tail_is_cons in H. destruct H as (Hg & Ht & Hi & _).
   unfold match_symbol, lenZ. replace (blen b - i <=? len nm) with false by lia. rewrite Hg, Hu.
@@ -341,12 +342,12 @@ Proof.
   apply tail_is_cons in Ht1. destruct Ht1 as (Hg1 & Ht2 & Hp & _).
   replace (i + len nm + 1 =? blen b) with false by lia. rewrite Hg1. cbn [Z.eqb Pos.eqb].
   destruct (space_ws fl b c1 _ ws rest Ht2 Hw Hs Hc1) as (c2 & -> & Hc2 & Ht3).
-  exists c2, (i + len nm + 1 + 1 + len ws). repeat split; try assumption; try apply Hc2. lia.
+  exists c2, (i + len nm + 1 + 1 + len ws). repeat split; try assumption; try apply Hc2; lia.
 Qed.
 
 Lemma match_symbol_unquoted fl b c i nm ws rest : cunq c = true ->
   tail_is b i (nm ++ 58 :: ws ++ rest) -> wsp ws -> stop rest -> cok fl c ->
-  exists c' p, match_symbol b c i (lenZ nm) = Ok c' p tt /\ cok fl c' /\ tail_is b p rest /\ p <> i.
+  exists c' p, match_symbol b c i (lenZ nm) = Ok c' p tt /\ cok fl c' /\ tail_is b p rest /\ p = i + len nm + 1 + len ws.
 Proof.
   intros Hu H Hw Hs Hc. apply tail_is_app in H. pose proof H as H0. apply tail_is_cons in H. destruct H as (Hg & Ht & Hi & _).
   unfold match_symbol, lenZ. replace (blen b - i <=? len nm) with false by lia. rewrite Hg, Hu.
@@ -356,7 +357,7 @@ Proof.
   cbn [length] in *. replace (i + len nm + Z.of_nat 0) with (i + len nm) in * by lia. rewrite E1.
   replace (i + len nm =? blen b) with false by lia. rewrite Hg. cbn [Z.eqb Pos.eqb].
   destruct (space_ws fl b c1 _ ws rest Ht Hw Hs Hc1) as (c2 & -> & Hc2 & Ht3).
-  exists c2, (i + len nm + 1 + len ws). repeat split; try assumption; try apply Hc2. lia.
+  exists c2, (i + len nm + 1 + len ws). repeat split; try assumption; try apply Hc2; lia.
 Qed.
 
 Definition names_ok (flds : list pfield) : Prop :=
@@ -673,3 +674,1189 @@ Proof.
     apply holds_app in Hh3. destruct Hh3 as [_ [Hg2 _]].
     rewrite (string_end_quote b c _ Hg2), lift_Ok by assumption. subst str. f_equal. rewrite app_length. lia.
 Qed.
+
+(* ------------------------------------------------------------------ shapes of printed pieces *)
+Definition vfollow_head (rest : list Z) : Prop := match rest with y :: _ => vfollow y | [] => False end.
+(* after a member / element: comma or the closing character *)
+Definition vstop (rest : list Z) : Prop := match rest with y :: _ => y = 44 \/ y = 125 \/ y = 93 | [] => False end.
+
+Lemma vstop_stop rest : vstop rest -> stop rest.
+Proof. destruct rest; cbn; [tauto|lia]. Qed.
+
+Lemma vfollow_ws ws rest : wsp ws -> vstop rest -> vfollow_head (ws ++ rest).
+Proof.
+  intros Hw Hr. destruct ws as [|x t]; cbn [app].
+  - destruct rest; cbn in *; [tauto|]. unfold vfollow. lia.
+  - inversion Hw; subst. cbn. unfold vfollow. lia.
+Qed.
+
+Lemma sp_int_printed' F syms fl b c i ty bs rest : sty_ok ty -> cok fl c ->
+  scalar_okb ty bs = true -> nosym_okb F syms ty bs = true ->
+  tail_is b i (scalar_text F syms ty bs ++ rest) -> vfollow_head rest ->
+  sp_int ty b c i = Ok c (i + len (scalar_text F syms ty bs)) (SBytes bs).
+Proof. intros. destruct rest as [|y r]; [contradiction|]. eapply sp_int_printed; eassumption. Qed.
+
+Section Shapes.
+Variable F : prflags.
+Hypothesis HF : prflags_ok F.
+
+Lemma wsp_nl lvl : wsp (nl F lvl).
+Proof.
+  unfold nl. destruct (0 <? fl_indent F); [|constructor]. constructor; [left; reflexivity|].
+  apply Forall_forall. intros x Hx. apply repeat_spec in Hx. right. exact Hx.
+Qed.
+Lemma wsp_sp1 : wsp (sp1 F).
+Proof. unfold sp1. destruct (0 <? fl_indent F); [constructor; [right; reflexivity|constructor] | constructor]. Qed.
+
+(* first character of a printed scalar: a digit, '-', 't' or 'f' *)
+Definition vhead (l : list Z) : Prop := match l with y :: _ => 32 < y < 128 /\ y <> 93 /\ y <> 125 /\ y <> 44 | [] => False end.
+
+Lemma sdecimal_head x : vhead (NumModel.sdecimal x).
+Proof.
+  unfold NumModel.sdecimal. destruct (x <? 0) eqn:E; [cbn; lia|].
+  pose proof (NumProofs.decimal_digits x ltac:(lia)) as Hd. pose proof (NumProofs.decimal_nonempty x ltac:(lia)).
+  destruct (NumModel.decimal x) as [|d t]; [congruence|]. apply Forall_inv in Hd. unfold NumProofs.digitc in Hd. cbn. lia.
+Qed.
+
+Lemma scalar_text_head syms ty bs : sty_ok ty -> scalar_okb ty bs = true -> nosym_okb F syms ty bs = true ->
+  vhead (scalar_text F syms ty bs).
+Proof.
+  intros Hok Hs Hn. unfold scalar_okb in Hs. apply andb_true_iff in Hs. destruct Hs as [Hs _].
+  apply andb_true_iff in Hs. destruct Hs as [Hl Hb]. apply byte_okb_forall in Hb.
+  unfold scalar_text. destruct (st_bool ty) eqn:Eb; [destruct (le_val bs =? 0); cbn; lia|].
+  unfold nosym_okb in Hn. rewrite Eb in Hn. cbn [orb] in Hn.
+  assert (E : num_text ty (sval_of ty bs) = NumModel.sdecimal (sval_of ty bs)) by (apply num_text_sdecimal; [assumption|lia|assumption]).
+  destruct (fl_noenum F); [rewrite E; apply sdecimal_head|]. cbn [orb] in Hn.
+  destruct (assocZ (sval_of ty bs) syms); [discriminate|]. rewrite E. apply sdecimal_head.
+Qed.
+End Shapes.
+
+(* ------------------------------------------------------------------ the builder's data area stays small *)
+Definition targ_small (a : targ) : Prop := 0 <= targ_size a <= 8 /\ pow2 (targ_align a) /\ targ_align a <= 8.
+
+Lemma place_end_small : forall ads off, Forall targ_small ads -> 0 <= off -> off + 15 * len ads <= 2147483648 ->
+  0 <= place_end ads off <= off + 15 * len ads.
+Proof.
+  induction ads as [|a r IH]; intros off Hs Ho Hb; cbn [place_end length]; [cbn; lia|].
+  inversion Hs as [|? ? (Hsz & Hp & Hal) Hr]; subst. cbn [length] in Hb. rewrite Nat2Z.inj_succ in *.
+  pose proof (alignup_facts off (targ_align a) Hp Ho ltac:(lia)) as [Ha _].
+  rewrite u32_id by (unfold in_u32; lia).
+  specialize (IH (alignup off (targ_align a) + targ_size a) Hr ltac:(lia) ltac:(lia)). lia.
+Qed.
+
+Lemma pow2_4 : pow2 4.
+Proof. exists 2. split; [lia|reflexivity]. Qed.
+
+(* ------------------------------------------------------------------ vectors of scalars and of strings *)
+Section Loops.
+Variables (F : prflags) (fl maxlvl : Z).
+Hypothesis HF : prflags_ok F.
+
+Lemma pscalvec_printed syms ty lvl L : sty_ok ty -> forall es e fuel b c i s acc wsA rest,
+  Forall (fun e => scalar_okb ty e = true /\ nosym_okb F syms ty e = true) (e :: es) ->
+  tail_is b i (scalar_text F syms ty e ++
+               flat_map (fun y => 44 :: y) (map (fun e => nl F L ++ scalar_text F syms ty e) es) ++
+               nl F lvl ++ 93 :: wsA ++ rest) ->
+  wsp wsA -> stop rest -> cok fl c -> Z.of_nat fuel > blen b - i ->
+  len acc + 1 + len es <= count_max (st_size ty) ->
+  exists c' q, pscalvec fuel sp_int ty b c i s acc = POk c' q s (acc ++ e :: es) /\ cok fl c' /\ tail_is b q rest.
+Proof.
+  intros Hok. induction es as [|e2 r IH]; intros e fuel b c i s acc wsA rest Hes Ht HwA Hs Hc Hf Hcnt;
+    (destruct fuel as [|f]; [pose proof (tail_is_range _ _ _ Ht); lia|]); cbn [pscalvec];
+    (replace (count_max (st_size ty) <? len acc + 1) with false by (cbn [length] in Hcnt; lia));
+    inversion Hes as [|? ? [He1 He2] Hes']; subst.
+  - cbn [map flat_map app] in Ht.
+    rewrite (sp_int_printed' F syms fl b c i ty e _ Hok Hc He1 He2 Ht)
+      by (apply vfollow_ws; [apply wsp_nl | cbn; tauto]).
+    rewrite lift_Ok by apply Hc.
+    apply tail_is_app in Ht.
+    destruct (delim_end_close fl 93 JE_unbalanced_array b c _ (nl F lvl) wsA rest Ht (wsp_nl F lvl) HwA ltac:(lia) ltac:(lia) Hs Hc)
+      as (c' & q & E & Hc' & Ht' & Hq).
+    unfold array_end. rewrite E, lift_Ok by apply Hc'. exists c', q. auto.
+  - cbn [map flat_map app] in Ht.
+    rewrite (sp_int_printed' F syms fl b c i ty e _ Hok Hc He1 He2 Ht) by (cbn; unfold vfollow; tauto).
+    rewrite lift_Ok by apply Hc.
+    apply tail_is_app in Ht.
+    inversion Hes' as [|? ? [He21 He22] _]; subst.
+    pose proof (scalar_text_head F syms ty e2 Hok He21 He22) as Hh.
+    rewrite <- !app_assoc in Ht.
+    destruct (scalar_text F syms ty e2) as [|y t] eqn:Etxt; [contradiction|]. cbn [vhead] in Hh.
+    destruct (delim_end_more fl 93 JE_unbalanced_array b c _ [] (nl F L) y _ Ht ltac:(constructor) (wsp_nl F L) ltac:(lia) ltac:(lia) Hc)
+      as (c' & q & E & Hc' & Ht' & Hq).
+    unfold array_end. rewrite E, lift_Ok by apply Hc'.
+    destruct (IH e2 f b c' q s (acc ++ [e]) wsA rest Hes') as (c2 & q2 & E2 & Hc2 & Ht2); try assumption.
+    + rewrite Etxt. exact Ht'.
+    + cbn [length] in Hq. lia.
+    + rewrite app_length. cbn [length] in *. lia.
+    + exists c2, q2. rewrite E2, <- app_assoc. auto.
+Qed.
+
+(* while (more) { build_string; extend_offset_vector; array_end } *)
+Lemma pstrvec_printed plvl lvl L : forall strs str fuel b c i s rs vs wsA rest,
+  Forall (fun x => bytes_ok x /\ plvl + str_need x <= maxlvl) (str :: strs) ->
+  tail_is b i (print_string str ++
+               flat_map (fun y => 44 :: y) (map (fun x => nl F L ++ print_string x) strs) ++
+               nl F lvl ++ 93 :: wsA ++ rest) ->
+  wsp wsA -> stop rest -> cok fl c -> Z.of_nat fuel > blen b - i ->
+  exists c' q s' rs', pstrvec fuel maxlvl plvl b c i s rs vs = POk c' q s' (rs', vs ++ map VString (str :: strs)) /\
+                      cok fl c' /\ tail_is b q rest.
+Proof.
+  induction strs as [|x2 r IH]; intros str fuel b c i s rs vs wsA rest Hes Ht HwA Hs Hc Hf;
+    (destruct fuel as [|f]; [pose proof (tail_is_range _ _ _ Ht); lia|]); cbn [pstrvec];
+    inversion Hes as [|? ? [He1 He2] Hes']; subst.
+  - cbn [map flat_map app] in Ht.
+    rewrite (pstring_printed fl maxlvl plvl b c i s str _ He1 Hc Ht He2).
+    apply tail_is_app in Ht.
+    destruct (delim_end_close fl 93 JE_unbalanced_array b c _ (nl F lvl) wsA rest Ht (wsp_nl F lvl) HwA ltac:(lia) ltac:(lia) Hs Hc)
+      as (c' & q & E & Hc' & Ht' & Hq).
+    unfold array_end. rewrite E, lift_Ok by apply Hc'. eexists c', q, _, _. split; [reflexivity|auto].
+  - cbn [map flat_map app] in Ht.
+    rewrite (pstring_printed fl maxlvl plvl b c i s str _ He1 Hc Ht He2).
+    apply tail_is_app in Ht. rewrite <- !app_assoc in Ht.
+    change (print_string x2) with (34 :: (print_string_body x2 ++ [34])) in Ht. cbn [app] in Ht.
+    destruct (delim_end_more fl 93 JE_unbalanced_array b c _ [] (nl F L) 34 _ Ht ltac:(constructor) (wsp_nl F L) ltac:(lia) ltac:(lia) Hc)
+      as (c' & q & E & Hc' & Ht' & Hq).
+    unfold array_end. rewrite E, lift_Ok by apply Hc'.
+    destruct (IH x2 f b c' q (s ++ [CString str]) (rs ++ [length s]) (vs ++ [VString str]) wsA rest Hes') as (c2 & q2 & s2 & rs2 & E2 & Hc2 & Ht2);
+      try assumption.
+    + cbn [length] in Hq. lia.
+    + exists c2, q2, s2, rs2. rewrite E2, <- app_assoc. auto.
+Qed.
+End Loops.
+
+(* ------------------------------------------------------------------ lists of optional results *)
+Lemma opt_all_Forall2 {A B} (g : A -> option B) : forall l r, opt_all (map g l) = Some r -> Forall2 (fun a b => g a = Some b) l r.
+Proof.
+  induction l as [|a t IH]; intros r H; cbn [map opt_all] in H.
+  - inversion H. constructor.
+  - destruct (g a) eqn:E; [|discriminate]. destruct (opt_all (map g t)) eqn:E2; [|discriminate].
+    inversion H; subst. constructor; [assumption|]. apply IH. reflexivity.
+Qed.
+
+Lemma fold_max_ge {A} (f : A -> Z) l x : In x l -> f x <= fold_right (fun y a => Z.max (f y) a) 0 l.
+Proof. induction l as [|y t IH]; intros H; [destruct H|]. cbn [fold_right]. destruct H as [->|H]; [lia|]. specialize (IH H). lia. Qed.
+
+Lemma fold_max_nonneg {A} (f : A -> Z) l : 0 <= fold_right (fun y a => Z.max (f y) a) 0 l.
+Proof. induction l; cbn [fold_right]; lia. Qed.
+
+(* ------------------------------------------------------------------ frames *)
+Definition fr_inv (fr : tframe) : Prop :=
+  map ParserModel.targ_id (adds fr) = map fst (vals fr) /\ Forall targ_small (adds fr).
+
+Lemma fr_inv_0 : fr_inv frame0.
+Proof. split; [reflexivity|constructor]. Qed.
+
+Lemma fr_inv_add fr a v d : fr_inv fr -> targ_small a -> fr_inv (frame_add fr a v d).
+Proof.
+  intros [H1 H2] Ha. unfold frame_add, fr_inv. cbn [adds vals]. rewrite !map_app, H1. cbn [map fst].
+  split; [reflexivity|]. apply Forall_app. split; [assumption|constructor; [assumption|constructor]].
+Qed.
+
+Lemma has_id_vals fr id : fr_inv fr -> ~ In id (map fst (vals fr)) -> has_id id (adds fr) = false.
+Proof.
+  intros [H1 _] Hn. destruct (has_id id (adds fr)) eqn:E; [|reflexivity]. exfalso. apply Hn. rewrite <- H1.
+  unfold has_id in E. apply existsb_exists in E. destruct E as (a & Ha & Ea). apply in_map_iff. exists a. split; [lia|assumption].
+Qed.
+
+Lemma offset_small id r : targ_small (TOffset id r).
+Proof. unfold targ_small. cbn. split; [lia|]. split; [apply pow2_4|lia]. Qed.
+
+Lemma add_offset_ok {A} fr id r v d p (k : tframe -> pres A) : fr_inv fr -> ~ In id (map fst (vals fr)) ->
+  add_offset fr id r v d p k = k (frame_add fr (TOffset id r) v d).
+Proof. intros Hi Hn. unfold add_offset. rewrite (has_id_vals fr id Hi Hn). reflexivity. Qed.
+
+(* string vectors as the tree holds them *)
+Lemma strvec_shape l : forallb (fun x => match x with VString s => forallb byte_okb s | _ => false end) l = true ->
+  exists strs, l = map VString strs /\ Forall bytes_ok strs.
+Proof.
+  induction l as [|x t IH]; cbn [forallb]; intros H; [exists []; split; [reflexivity|constructor]|].
+  apply andb_true_iff in H. destruct H as [Hx Ht]. destruct (IH Ht) as (strs & -> & Hs).
+  destruct x; try discriminate. exists (s :: strs). split; [reflexivity|]. constructor; [apply byte_okb_forall; assumption|assumption].
+Qed.
+
+(* ------------------------------------------------------------------ association lists built field by field *)
+Lemma flat_map_flat_map {A B C} (f : A -> list B) (g : B -> list C) l :
+  flat_map g (flat_map f l) = flat_map (fun x => flat_map g (f x)) l.
+Proof. induction l as [|x t IH]; [reflexivity|]. cbn [flat_map]. rewrite flat_map_app, IH. reflexivity. Qed.
+
+Lemma flat_map_ext_in' {A B} (f g : A -> list B) l : (forall x, In x l -> f x = g x) -> flat_map f l = flat_map g l.
+Proof.
+  induction l as [|x t IH]; intros H; [reflexivity|]. cbn [flat_map]. rewrite (H x (or_introl eq_refl)), IH; [reflexivity|].
+  intros y Hy. apply H. right. exact Hy.
+Qed.
+
+Definition one_key (G : pfield -> list (Z * value)) : Prop := forall fd, G fd = [] \/ exists v, G fd = [(pf_id fd, v)].
+
+Lemma keys_flat_map G l : one_key G -> forall k, In k (map fst (flat_map G l)) -> In k (map pf_id l).
+Proof.
+  intros HG. induction l as [|fd r IH]; intros k Hk; [destruct Hk|]. cbn [flat_map] in Hk. rewrite map_app, in_app_iff in Hk.
+  cbn [map]. destruct Hk as [Hk|Hk]; [|right; auto].
+  destruct (HG fd) as [E|(v & E)]; rewrite E in Hk; cbn in Hk; [destruct Hk|]. destruct Hk as [<-|[]]. left. reflexivity.
+Qed.
+
+Lemma assocZ_not_in {A} k (l : list (Z * A)) : ~ In k (map fst l) -> assocZ k l = None.
+Proof.
+  induction l as [|[k' a] r IH]; intros H; [reflexivity|]. cbn [assocZ]. cbn [map fst] in H.
+  destruct (k =? k') eqn:E; [exfalso; apply H; left; lia|]. apply IH. intros Hin. apply H. right. exact Hin.
+Qed.
+
+Lemma assocZ_app_skip {A} k (l1 l2 : list (Z * A)) : ~ In k (map fst l1) -> assocZ k (l1 ++ l2) = assocZ k l2.
+Proof.
+  induction l1 as [|[k' a] r IH]; intros H; [reflexivity|]. cbn [app assocZ]. cbn [map fst] in H.
+  destruct (k =? k') eqn:E; [exfalso; apply H; left; lia|]. apply IH. intros Hin. apply H. right. exact Hin.
+Qed.
+
+Lemma assoc_flat_map G : one_key G -> forall l fd, NoDup (map pf_id l) -> In fd l ->
+  assocZ (pf_id fd) (flat_map G l) = match G fd with (_, v) :: _ => Some v | [] => None end.
+Proof.
+  intros HG. induction l as [|fd0 r IH]; intros fd Hnd Hin; [destruct Hin|].
+  cbn [map] in Hnd. inversion Hnd as [|? ? Hni Hnd']; subst. cbn [flat_map].
+  destruct Hin as [->|Hin].
+  - destruct (HG fd) as [E|(v & E)]; rewrite E; cbn [app].
+    + apply assocZ_not_in. intros Hk. apply Hni. eapply keys_flat_map; eassumption.
+    + cbn [assocZ]. rewrite Z.eqb_refl. reflexivity.
+  - assert (Hne : pf_id fd <> pf_id fd0). { intros Eq. apply Hni. rewrite <- Eq. apply in_map. exact Hin. }
+    rewrite assocZ_app_skip; [apply IH; assumption|].
+    destruct (HG fd0) as [E|(v & E)]; rewrite E; cbn; [tauto|]. intros [Eq|[]]. congruence.
+Qed.
+
+Lemma order_vals_flat_map G flds : one_key G -> NoDup (map pf_id flds) ->
+  order_vals flds (flat_map G flds) = flat_map G flds.
+Proof.
+  intros HG Hnd. unfold order_vals. apply flat_map_ext_in'. intros fd Hin.
+  rewrite (assoc_flat_map G HG flds fd Hnd Hin).
+  destruct (HG fd) as [E|(v & E)]; rewrite E; reflexivity.
+Qed.
+
+(* sub-sequences of the field list keep distinct ids *)
+Lemma NoDup_flat_map_ids {B} (f : pfield -> list (pfield * B)) l :
+  (forall fd, f fd = [] \/ exists x, f fd = [(fd, x)]) -> NoDup (map pf_id l) ->
+  NoDup (map (fun it => pf_id (fst it)) (flat_map f l)).
+Proof.
+  intros Hf. induction l as [|fd r IH]; intros Hnd; [constructor|]. cbn [map] in Hnd. inversion Hnd as [|? ? Hni Hnd']; subst.
+  cbn [flat_map]. destruct (Hf fd) as [E|(x & E)]; rewrite E; cbn [app map fst]; [auto|].
+  constructor; [|auto]. intros Hin. apply Hni. apply in_map_iff in Hin. destruct Hin as ([fd' x'] & Eid & Hin).
+  apply in_flat_map in Hin. destruct Hin as (fd2 & Hin2 & Hin3).
+  destruct (Hf fd2) as [E2|(x2 & E2)]; rewrite E2 in Hin3; [destruct Hin3|]. destruct Hin3 as [Eq|[]]. inversion Eq; subst.
+  cbn [fst] in Eid. rewrite <- Eid. apply in_map. exact Hin2.
+Qed.
+
+Lemma Forall2_impl_in {A B} (P Q : A -> B -> Prop) l r :
+  Forall2 P l r -> (forall a b, In a l -> P a b -> Q a b) -> Forall2 Q l r.
+Proof.
+  induction 1 as [|a b l r Hab Hr IH]; intros H; constructor.
+  - apply H; [left; reflexivity|assumption].
+  - apply IH. intros a' b' Hin. apply H. right. exact Hin.
+Qed.
+
+Lemma flat_map_length_le {A B} (f : A -> list B) l : (forall x, (length (f x) <= 1)%nat) -> (length (flat_map f l) <= length l)%nat.
+Proof. intros H. induction l as [|x t IH]; cbn [flat_map length]; [lia|]. rewrite app_length. specialize (H x). lia. Qed.
+
+(* delimiters followed by any text whose first character is printable and not the closing one *)
+Definition hd_ok (cl : Z) (rest : list Z) : Prop := match rest with y :: _ => 32 < y < 128 /\ y <> cl | [] => False end.
+
+Lemma delim_start_more' fl o cl e b c i ws rest :
+  tail_is b i (o :: ws ++ rest) -> wsp ws -> hd_ok cl rest -> cok fl c ->
+  exists c', delim_start o cl e b c i = Ok c' (i + 1 + len ws) true /\ cok fl c' /\ tail_is b (i + 1 + len ws) rest.
+Proof. intros H Hw Hh Hc. destruct rest as [|y r]; [contradiction|]. destruct Hh. eapply delim_start_more; eassumption. Qed.
+
+Lemma delim_end_more' fl cl e b c i ws ws2 rest :
+  tail_is b i (ws ++ 44 :: ws2 ++ rest) -> wsp ws -> wsp ws2 -> hd_ok cl rest -> cok fl c ->
+  exists c' p, delim_end cl e b c i = Ok c' p true /\ cok fl c' /\ tail_is b p rest /\ p = i + len ws + 1 + len ws2.
+Proof. intros H Hw Hw2 Hh Hc. destruct rest as [|y r]; [contradiction|]. destruct Hh. eapply delim_end_more; eassumption. Qed.
+
+(* ------------------------------------------------------------------ one unfolding step of the mutual fixpoint *)
+Lemma ptable_step sp maxlvl PS b f t lvl c i s :
+  ptable sp maxlvl PS b (S f) t lvl c i s =
+  match nth_error PS t with None => PStop W_OUT | Some flds =>
+    if maxlvl <? lvl + 1 then failed i else
+    lift (object_start b c i) (fun c1 p more =>
+    if more then pfields sp maxlvl PS b f flds (lvl + 1) c1 p s frame0 else tfinish flds c1 p s frame0)
+  end.
+Proof. reflexivity. Qed.
+
+Lemma pfields_step sp maxlvl PS b f flds lvl c i s fr :
+  pfields sp maxlvl PS b (S f) flds lvl c i s fr =
+  lift (symbol_start b c i) (fun c1 p1 _ =>
+    let next (r : pres tframe) : tres :=
+      match r with
+      | PErr e l => PErr e l
+      | PStop w => PStop w
+      | POk c3 p3 s3 fr3 =>
+        lift (object_end b c3 p3) (fun c4 p4 more =>
+        if more then pfields sp maxlvl PS b f flds lvl c4 p4 s3 fr3 else tfinish flds c4 p4 s3 fr3)
+      end in
+    match find_field flds b c1 p1 with
+    | None => next (lift (unmatched_symbol b c1 p1) (fun c2 p2 _ => POk c2 p2 s fr))
+    | Some (fd, r) => next (lift r (fun c2 p2 _ =>
+        pvalue sp maxlvl (ptable sp maxlvl PS b f) (ptabvec sp maxlvl PS b f) fd lvl b c2 p2 s fr))
+    end).
+Proof. reflexivity. Qed.
+
+Lemma ptabvec_step sp maxlvl PS b f t lvl c i s rs vs d :
+  ptabvec sp maxlvl PS b (S f) t lvl c i s rs vs d =
+  match ptable sp maxlvl PS b f t lvl c i s with
+  | PErr e l => PErr e l
+  | PStop w => PStop w
+  | POk c1 p s1 (r, v, d1) =>
+    lift (array_end b c1 p) (fun c2 q more =>
+    if more then ptabvec sp maxlvl PS b f t lvl c2 q s1 (rs ++ [r]) (vs ++ [v]) (Nat.max d d1)
+    else POk c2 q s1 (rs ++ [r], vs ++ [v], Nat.max d d1))
+  end.
+Proof. reflexivity. Qed.
+
+Ltac norm_app H := cbn [commas map app] in H; unfold pend in H; repeat (rewrite <- !app_assoc in H; cbn [app] in H).
+
+(* ------------------------------------------------------------------ one table type against its printed text *)
+Section Main.
+Variables (F : prflags) (PS : pschema) (E : penums) (maxlvl fl : Z).
+Hypothesis HF : prflags_ok F.
+Hypothesis HPS : pschema_okb PS = true.
+Hypothesis HRT : rt_schema_okb PS = true.
+
+(* the parser flag force_add *)
+Definition fa_of : bool := negb (Z.land fl JF_force_add =? 0).
+
+(* the parser on the printed text of a table of depth at most k (any table type, any levels, any position) *)
+Definition table_spec (k : nat) : Prop := forall t lvl plvl v text,
+  print_table F PS E k t lvl v = Some text -> wt_table F PS E k t v = true ->
+  plvl + need_table F PS k t v <= maxlvl ->
+  forall fuel b c i s ws rest, tail_is b i (text ++ ws ++ rest) -> wsp ws -> stop rest -> cok fl c ->
+    Z.of_nat fuel >= 2 * (blen b - i) + 2 ->
+    exists c' p s' r d,
+      ptable sp_int maxlvl PS b fuel t plvl c i s = POk c' p s' (r, reparse_table F PS fa_of k t v, d) /\
+      cok fl c' /\ tail_is b p rest.
+
+Section Step.
+Variable k : nat.
+Hypothesis IHk : table_spec k.
+
+(* while (more) { <T>_parse_json_table; extend_offset_vector; array_end } on the printed elements *)
+Lemma ptabvec_printed t lvl L plvl : forall vs0 txs v1 tx1 fuel b c i s rs vs d wsA rest,
+  Forall2 (fun v tx => print_table F PS E k t L v = Some tx /\ wt_table F PS E k t v = true /\
+                       plvl + need_table F PS k t v <= maxlvl) (v1 :: vs0) (tx1 :: txs) ->
+  tail_is b i (tx1 ++ flat_map (fun y => 44 :: y) txs ++ nl F lvl ++ 93 :: wsA ++ rest) ->
+  wsp wsA -> stop rest -> cok fl c -> Z.of_nat fuel >= 2 * (blen b - i) + 3 ->
+  exists c' q s' rs' d', ptabvec sp_int maxlvl PS b fuel t plvl c i s rs vs d =
+                           POk c' q s' (rs', vs ++ map (reparse_table F PS fa_of k t) (v1 :: vs0), d') /\
+                         cok fl c' /\ tail_is b q rest.
+Proof.
+  induction vs0 as [|v2 r IH]; intros txs v1 tx1 fuel b c i s rs vs d wsA rest H2 Ht HwA Hs Hc Hf;
+    (destruct fuel as [|f]; [pose proof (tail_is_range _ _ _ Ht); lia|]); rewrite ptabvec_step;
+    inversion H2 as [|? ? ? ? (Hp1 & Hw1 & Hn1) H2']; subst.
+  - inversion H2'; subst. cbn [flat_map app] in Ht.
+    destruct (IHk t L plvl v1 tx1 Hp1 Hw1 Hn1 f b c i s (nl F lvl) (93 :: wsA ++ rest) Ht (wsp_nl F lvl) ltac:(cbn; lia) Hc ltac:(lia))
+      as (c1 & p & s1 & r1 & d1 & E1 & Hc1 & Ht1).
+    rewrite E1.
+    destruct (delim_end_close fl 93 JE_unbalanced_array b c1 p [] wsA rest Ht1 ltac:(constructor) HwA ltac:(lia) ltac:(lia) Hs Hc1)
+      as (c' & q & E2 & Hc' & Ht' & Hq).
+    unfold array_end. rewrite E2, lift_Ok by apply Hc'. eexists c', q, _, _, _. split; [reflexivity|auto].
+  - inversion H2' as [|? tx2 ? txs' (Hp2 & Hw2 & Hn2) H2'']; subst. cbn [flat_map app] in Ht.
+    rewrite <- !app_assoc in Ht.
+    (* the next element starts with '{' *)
+    assert (Hb2 : exists t2, tx2 = 123 :: t2).
+    { destruct k as [|k']; [discriminate|]. cbn [print_table] in Hp2.
+      destruct (nth_error PS t); [|discriminate]. destruct v2; try discriminate.
+      destruct (opt_all _); [|discriminate]. inversion Hp2. eexists; reflexivity. }
+    destruct Hb2 as (t2 & ->).
+    destruct (IHk t L plvl v1 tx1 Hp1 Hw1 Hn1 f b c i s [] (44 :: (123 :: t2) ++ flat_map (fun y => 44 :: y) txs' ++ nl F lvl ++ 93 :: wsA ++ rest)
+                Ht ltac:(constructor) ltac:(cbn; lia) Hc ltac:(lia))
+      as (c1 & p & s1 & r1 & d1 & E1 & Hc1 & Ht1).
+    rewrite E1.
+    pose proof (tail_is_range _ _ _ Ht1) as R1. pose proof (tail_is_range _ _ _ Ht) as R0.
+    destruct (delim_end_more fl 93 JE_unbalanced_array b c1 p [] [] 123 _ Ht1 ltac:(constructor) ltac:(constructor) ltac:(lia) ltac:(lia) Hc1)
+      as (c' & q & E2 & Hc' & Ht' & Hq).
+    unfold array_end. rewrite E2, lift_Ok by apply Hc'.
+    destruct (IH txs' v2 (123 :: t2) f b c' q s1 (rs ++ [r1]) (vs ++ [reparse_table F PS fa_of k t v1]) (Nat.max d d1) wsA rest)
+      as (c2 & q2 & s2 & rs2 & d2 & E3 & Hc2 & Ht2); try assumption.
+    + cbn [length] in Hq. cbn [length] in R1. rewrite app_length in R0. cbn [length] in R0. lia.
+    + exists c2, q2, s2, rs2, d2. rewrite E3, <- app_assoc. auto.
+Qed.
+
+(* ------------------------------------------------------------------ one member value *)
+Definition item_ok (t : nat) (lvl plvl : Z) (fd : pfield) (x : value) (tx : list Z) : Prop :=
+  pfield_okb fd = true /\
+  print_value F E (print_table F PS E k) t fd lvl x = Some tx /\
+  wt_value F E (wt_table F PS E k) t fd x = true /\
+  plvl + need_value (need_table F PS k) fd x <= maxlvl.
+
+Lemma strvec_texts L : forall strs its,
+  opt_all (map (fun x => match x with VString s => Some (nl F L ++ print_string s) | _ => None end) (map VString strs)) = Some its ->
+  its = map (fun s => nl F L ++ print_string s) strs.
+Proof.
+  induction strs as [|x t IH]; intros its H; cbn [map opt_all] in H; [inversion H; reflexivity|].
+  destruct (opt_all _) eqn:Eo; [|discriminate]. inversion H; subst. cbn [map]. f_equal. apply IH. reflexivity.
+Qed.
+
+Lemma pvalue_printed t lvl plvl fd x tx : item_ok t lvl plvl fd x tx ->
+  forall f b c i s fr ws rest, tail_is b i (tx ++ ws ++ rest) -> wsp ws -> vstop rest -> cok fl c ->
+    Z.of_nat f >= 2 * (blen b - i) + 2 -> fr_inv fr -> ~ In (pf_id fd) (map fst (vals fr)) ->
+    exists c' p s' fr' ws',
+      pvalue sp_int maxlvl (ptable sp_int maxlvl PS b f) (ptabvec sp_int maxlvl PS b f) fd plvl b c i s fr = POk c' p s' fr' /\
+      cok fl c' /\ wsp ws' /\ tail_is b p (ws' ++ rest) /\ fr_inv fr' /\
+      vals fr' = vals fr ++ reparse_item (reparse_table F PS fa_of k) fa_of (fd, x).
+Proof.
+  intros (Hfd & Hp & Hw & Hn) f b c i s fr ws rest Ht Hws Hvs Hc Hf Hfi Hid.
+  pose proof (vstop_stop _ Hvs) as Hst.
+  unfold pvalue, print_value, wt_value, need_value, reparse_item in *.
+  unfold pfield_okb in Hfd. apply andb_true_iff in Hfd. destruct Hfd as [Hfd Hkd].
+  destruct (pf_kind fd) as [ty dflt| |ty| |t'|t'] eqn:Ek; cbn [pkind_okb] in Hkd.
+  - (* scalar *)
+    destruct x as [bs| | | | | | | |]; try discriminate. inversion Hp; subst tx. clear Hp.
+    apply andb_true_iff in Hw. destruct Hw as [Hw1 Hw2].
+    rewrite (sp_int_printed' F _ fl b c i ty bs _ Hkd Hc Hw1 Hw2 Ht) by (apply vfollow_ws; assumption).
+    rewrite lift_Ok by apply Hc. rewrite (has_flag_cok fl c JF_force_add Hc). fold fa_of.
+    apply tail_is_app in Ht.
+    destruct (list_eqb bs dflt && negb fa_of).
+    + exists c, (i + len (scalar_text F (enum_of E t (pf_id fd)) ty bs)), s, fr, ws.
+      rewrite app_nil_r. auto 10.
+    + rewrite (has_id_vals fr _ Hfi Hid).
+      eexists c, _, s, _, ws. split; [reflexivity|]. split; [assumption|]. split; [assumption|]. split; [assumption|].
+      split; [|reflexivity]. apply fr_inv_add; [assumption|].
+      pose proof (sty_size ty Hkd). pose proof (sty_pow2 ty Hkd). unfold targ_small. cbn [targ_size targ_align]. repeat split; try assumption; lia.
+  - (* string *)
+    destruct x as [|s0| | | | | | |]; try discriminate. inversion Hp; subst tx. clear Hp.
+    apply byte_okb_forall in Hw.
+    rewrite (pstring_printed fl maxlvl plvl b c i s s0 _ Hw Hc Ht Hn).
+    rewrite add_offset_ok by assumption. apply tail_is_app in Ht.
+    eexists c, _, _, _, ws. split; [reflexivity|]. split; [assumption|]. split; [assumption|]. split; [assumption|].
+    split; [|reflexivity]. apply fr_inv_add; [assumption|apply offset_small].
+  - (* vector of scalars *)
+    destruct x as [| |es| | | | | |]; try discriminate. inversion Hp; subst tx. clear Hp.
+    apply andb_true_iff in Hw. destruct Hw as [Hw Hcnt].
+    replace (maxlvl <? plvl + 1) with false by lia.
+    assert (Hes : Forall (fun e => scalar_okb ty e = true /\ nosym_okb F (enum_of E t (pf_id fd)) ty e = true) es).
+    { apply Forall_forall. intros e He. rewrite forallb_forall in Hw. specialize (Hw e He). apply andb_true_iff in Hw. exact Hw. }
+    destruct es as [|e es'].
+    + norm_app Ht.
+      destruct (delim_start_empty fl 91 93 JE_expected_array b c i (nl F lvl) ws rest Ht (wsp_nl F lvl) Hws ltac:(lia) Hst Hc)
+        as (c1 & p & E1 & Hc1 & Ht1 & _).
+      unfold array_start. rewrite E1, lift_Ok by apply Hc1. cbv zeta. rewrite add_offset_ok by assumption.
+      eexists c1, p, _, _, []. split; [reflexivity|]. split; [assumption|]. split; [constructor|]. split; [assumption|].
+      split; [|reflexivity]. apply fr_inv_add; [assumption|apply offset_small].
+    + norm_app Ht.
+      inversion Hes as [|? ? [He1 He2] Hes']; subst.
+      pose proof (scalar_text_head F _ ty e Hkd He1 He2) as Hh.
+      destruct (scalar_text F (enum_of E t (pf_id fd)) ty e) as [|y t0] eqn:Etxt; [contradiction|]. cbn [vhead] in Hh.
+      destruct (delim_start_more fl 91 93 JE_expected_array b c i (nl F (lvl + 1)) y _ Ht (wsp_nl F _) ltac:(lia) ltac:(lia) Hc)
+        as (c1 & E1 & Hc1 & Ht1).
+      unfold array_start. rewrite E1, lift_Ok by apply Hc1. cbv zeta.
+      pose proof (tail_is_range _ _ _ Ht1) as R1.
+      destruct (pscalvec_printed F fl (enum_of E t (pf_id fd)) ty lvl (lvl + 1) Hkd es' e (scan_fuel b (i + 1 + len (nl F (lvl + 1)))) b c1 (i + 1 + len (nl F (lvl + 1))) s [] ws rest)
+        as (c2 & q & E2 & Hc2 & Ht2); try assumption.
+      * rewrite Etxt. exact Ht1.
+      * unfold scan_fuel. lia.
+      * cbn [length] in *. lia.
+      * rewrite E2. cbn [app]. rewrite add_offset_ok by assumption.
+        eexists c2, q, _, _, []. split; [reflexivity|]. split; [assumption|]. split; [constructor|]. split; [assumption|].
+        split; [|reflexivity]. apply fr_inv_add; [assumption|apply offset_small].
+  - (* vector of strings *)
+    destruct x as [| | | |l| | | |]; try discriminate.
+    destruct (strvec_shape l Hw) as (strs & -> & Hstrs).
+    destruct (opt_all _) as [its|] eqn:Eits; [|discriminate]. inversion Hp; subst tx. clear Hp.
+    apply strvec_texts in Eits. subst its.
+    assert (Hlv : Forall (fun x => bytes_ok x /\ plvl + 1 + str_need x <= maxlvl) strs).
+    { apply Forall_forall. intros x0 Hx0. split; [rewrite Forall_forall in Hstrs; auto|].
+      pose proof (fold_max_ge (fun x => match x with VString s => str_need s | _ => 0 end) (map VString strs) (VString x0) (in_map _ _ _ Hx0)) as G.
+      cbn beta iota in G. lia. }
+    assert (Hl1 : plvl + 1 <= maxlvl).
+    { pose proof (fold_max_nonneg (fun x => match x with VString s => str_need s | _ => 0 end) (map VString strs)). lia. }
+    replace (maxlvl <? plvl + 1) with false by lia.
+    destruct strs as [|x1 strs'].
+    + norm_app Ht.
+      destruct (delim_start_empty fl 91 93 JE_expected_array b c i (nl F lvl) ws rest Ht (wsp_nl F lvl) Hws ltac:(lia) Hst Hc)
+        as (c1 & p & E1 & Hc1 & Ht1 & _).
+      unfold array_start. rewrite E1, lift_Ok by apply Hc1. cbv zeta. rewrite add_offset_ok by assumption.
+      eexists c1, p, _, _, []. split; [reflexivity|]. split; [assumption|]. split; [constructor|]. split; [assumption|].
+      split; [|reflexivity]. apply fr_inv_add; [assumption|apply offset_small].
+    + norm_app Ht.
+      change (print_string x1) with (34 :: (print_string_body x1 ++ [34])) in Ht at 1.
+      destruct (delim_start_more fl 91 93 JE_expected_array b c i (nl F (lvl + 1)) 34 _ Ht (wsp_nl F _) ltac:(lia) ltac:(lia) Hc)
+        as (c1 & E1 & Hc1 & Ht1).
+      unfold array_start. rewrite E1, lift_Ok by apply Hc1. cbv zeta.
+      pose proof (tail_is_range _ _ _ Ht1) as R1.
+      destruct (pstrvec_printed F fl maxlvl (plvl + 1) lvl (lvl + 1) strs' x1 (scan_fuel b (i + 1 + len (nl F (lvl + 1)))) b c1 (i + 1 + len (nl F (lvl + 1))) s [] [] ws rest)
+        as (c2 & q & s2 & rs2 & E2 & Hc2 & Ht2); try assumption.
+      * unfold scan_fuel. lia.
+      * rewrite E2. cbn [app]. rewrite add_offset_ok by assumption.
+        eexists c2, q, _, _, []. split; [reflexivity|]. split; [assumption|]. split; [constructor|]. split; [assumption|].
+        split; [|reflexivity]. apply fr_inv_add; [assumption|apply offset_small].
+  - (* table *)
+    destruct x as [| | |fs| | | | |]; try discriminate.
+    destruct (IHk t' lvl plvl (VTable fs) tx Hp Hw Hn f b c i s ws rest Ht Hws Hst Hc Hf)
+      as (c1 & p & s1 & r1 & d1 & E1 & Hc1 & Ht1).
+    rewrite E1. rewrite add_offset_ok by assumption.
+    eexists c1, p, _, _, []. split; [reflexivity|]. split; [assumption|]. split; [constructor|]. split; [assumption|].
+    split; [|reflexivity]. apply fr_inv_add; [assumption|apply offset_small].
+  - (* vector of tables *)
+    destruct x as [| | | |l| | | |]; try discriminate.
+    destruct (opt_all _) as [its|] eqn:Eits; [|discriminate]. inversion Hp; subst tx. clear Hp.
+    apply opt_all_Forall2 in Eits.
+    assert (Hl1 : plvl + 1 <= maxlvl).
+    { pose proof (fold_max_nonneg (need_table F PS k t') l). lia. }
+    replace (maxlvl <? plvl + 1) with false by lia.
+    destruct l as [|v1 vs0].
+    + inversion Eits; subst. norm_app Ht.
+      destruct (delim_start_empty fl 91 93 JE_expected_array b c i (nl F lvl) ws rest Ht (wsp_nl F lvl) Hws ltac:(lia) Hst Hc)
+        as (c1 & p & E1 & Hc1 & Ht1 & _).
+      unfold array_start. rewrite E1, lift_Ok by apply Hc1. cbv zeta. rewrite add_offset_ok by assumption.
+      eexists c1, p, _, _, []. split; [reflexivity|]. split; [assumption|]. split; [constructor|]. split; [assumption|].
+      split; [|reflexivity]. apply fr_inv_add; [assumption|apply offset_small].
+    + inversion Eits as [|? tx1 ? txs Hp1 Eits']; subst.
+      assert (Hb1 : exists t1, tx1 = 123 :: t1).
+      { destruct k as [|k']; [discriminate|]. cbn [print_table] in Hp1.
+        destruct (nth_error PS t'); [|discriminate]. destruct v1; try discriminate.
+        destruct (opt_all _); [|discriminate]. inversion Hp1. eexists; reflexivity. }
+      destruct Hb1 as (t1 & ->).
+      norm_app Ht.
+      destruct (delim_start_more fl 91 93 JE_expected_array b c i [] 123 _ Ht ltac:(constructor) ltac:(lia) ltac:(lia) Hc)
+        as (c1 & E1 & Hc1 & Ht1).
+      unfold array_start. rewrite E1, lift_Ok by apply Hc1. cbv zeta.
+      destruct (ptabvec_printed t' lvl (lvl + 1) (plvl + 1) vs0 txs v1 (123 :: t1) f b c1 (i + 1 + len (@nil Z)) s [] [] O ws rest)
+        as (c2 & q & s2 & rs2 & d2 & E2 & Hc2 & Ht2); try assumption.
+      * (* every element prints, is well typed and fits *)
+        assert (G : forall vs ts, Forall2 (fun a b0 => print_table F PS E k t' (lvl + 1) a = Some b0) vs ts ->
+                    (forall v, In v vs -> In v (v1 :: vs0)) ->
+                    Forall2 (fun v tx => print_table F PS E k t' (lvl + 1) v = Some tx /\ wt_table F PS E k t' v = true /\
+                                         plvl + 1 + need_table F PS k t' v <= maxlvl) vs ts).
+        { induction 1 as [|a b0 vs ts Hab Hr IH]; intros Hin; constructor.
+          - split; [assumption|]. split.
+            + rewrite forallb_forall in Hw. apply Hw. apply Hin. left. reflexivity.
+            + pose proof (fold_max_ge (need_table F PS k t') (v1 :: vs0) a (Hin a (or_introl eq_refl))). lia.
+          - apply IH. intros v Hv. apply Hin. right. assumption. }
+        apply G; [constructor; assumption | auto].
+      * cbn [length] in *. lia.
+      * rewrite E2. cbn [app]. rewrite add_offset_ok by assumption.
+        eexists c2, q, _, _, []. split; [reflexivity|]. split; [assumption|]. split; [constructor|]. split; [assumption|].
+        split; [|reflexivity]. apply fr_inv_add; [assumption|apply offset_small].
+Qed.
+
+
+(* ------------------------------------------------------------------ the member loop *)
+Lemma print_value_head t lvl plvl fd x tx : item_ok t lvl plvl fd x tx -> hd_ok 0 tx.
+Proof.
+  intros (Hfd & Hp & Hw & _). unfold print_value, wt_value in *.
+  unfold pfield_okb in Hfd. apply andb_true_iff in Hfd. destruct Hfd as [_ Hkd].
+  destruct (pf_kind fd) as [ty dflt| |ty| |t'|t'] eqn:Ek; cbn [pkind_okb] in Hkd.
+  - destruct x; try discriminate. inversion Hp; subst. apply andb_true_iff in Hw. destruct Hw as [Hw1 Hw2].
+    pose proof (scalar_text_head F _ ty bs Hkd Hw1 Hw2) as Hh. destruct (scalar_text _ _ _ _); [contradiction|]. cbn in *. lia.
+  - destruct x; try discriminate. inversion Hp; subst. cbn. lia.
+  - destruct x; try discriminate. inversion Hp; subst. cbn. lia.
+  - destruct x; try discriminate. destruct (opt_all _); [|discriminate]. inversion Hp; subst. cbn. lia.
+  - destruct x; try discriminate. destruct k as [|k']; [discriminate|]. cbn [print_table] in Hp.
+    destruct (nth_error PS t'); [|discriminate]. destruct (opt_all _); [|discriminate]. inversion Hp; subst. cbn. lia.
+  - destruct x; try discriminate. destruct (opt_all _); [|discriminate]. inversion Hp; subst. cbn. lia.
+Qed.
+
+Fixpoint tail_text (lvl : Z) (bodies : list (list Z)) : list Z :=
+  match bodies with
+  | [] => nl F lvl ++ [125]
+  | b2 :: r => 44 :: nl F (lvl + 1) ++ b2 ++ tail_text lvl r
+  end.
+
+Definition member_ok (t : nat) (flds : list pfield) (lvl plvl : Z) (it : pfield * value) (body : list Z) : Prop :=
+  In (fst it) flds /\ name_okb (pf_name (fst it)) = true /\
+  exists tx, item_ok t (lvl + 1) plvl (fst it) (snd it) tx /\ body = psymbol F (pf_name (fst it)) ++ 58 :: sp1 F ++ tx.
+
+Lemma name_okb_facts nm : name_okb nm = true -> Forall (fun x => ident_char x = true) nm /\ exists x r, nm = x :: r.
+Proof.
+  unfold name_okb. intros H. apply andb_true_iff in H. destruct H as [H1 H2]. split.
+  - apply Forall_forall. rewrite forallb_forall in H2. exact H2.
+  - destruct nm as [|x r]; [cbn in H1; discriminate|]. eauto.
+Qed.
+
+Lemma member_hd t flds lvl plvl it body : member_ok t flds lvl plvl it body -> hd_ok 125 body.
+Proof.
+  intros (_ & Hn & tx & _ & ->). apply name_okb_facts in Hn. destruct Hn as (Hid & x & r & Enm). rewrite Enm in *.
+  unfold psymbol. destruct (fl_unquote F); cbn; [|lia]. apply Forall_inv in Hid. apply ident_range in Hid. lia.
+Qed.
+
+Lemma ri_one rec fa fd x : reparse_item rec fa (fd, x) = [] \/ exists v, reparse_item rec fa (fd, x) = [(pf_id fd, v)].
+Proof.
+  unfold reparse_item. destruct (pf_kind fd); destruct x; try (right; eexists; reflexivity).
+  destruct (list_eqb bs dflt && negb fa); [left; reflexivity | right; eexists; reflexivity].
+Qed.
+
+Lemma has_id_in id ads : In id (map ParserModel.targ_id ads) -> has_id id ads = true.
+Proof.
+  intros H. unfold has_id. apply existsb_exists. apply in_map_iff in H. destruct H as (a & Ea & Ha). exists a. split; [assumption|lia].
+Qed.
+
+(* symbol_start and the name dispatch on a printed member *)
+Lemma dispatch_member t flds lvl plvl fd x body b c i rest : names_ok flds ->
+  member_ok t flds lvl plvl (fd, x) body -> tail_is b i (body ++ rest) -> cok fl c ->
+  exists tx c1 p1 c2 p2,
+    item_ok t (lvl + 1) plvl fd x tx /\
+    symbol_start b c i = Ok c1 p1 tt /\ cerr c1 = 0 /\
+    find_field flds b c1 p1 = Some (fd, Ok c2 p2 tt) /\ cok fl c2 /\ tail_is b p2 (tx ++ rest) /\ i < p2.
+Proof.
+  intros Hnames (Hin & Hnm & tx & Hitem & ->) Ht Hc. cbn [fst snd] in *.
+  pose proof (name_okb_facts _ Hnm) as (Hid & x0 & r0 & Enm).
+  pose proof (print_value_head _ _ _ _ _ _ Hitem) as Hhd.
+  assert (Hstop : stop (tx ++ rest)). { destruct tx as [|y r]; [contradiction|]. cbn in *. lia. }
+  exists tx. unfold psymbol in Ht. destruct (fl_unquote F).
+  - (* name: value *)
+    cbn [app] in Ht; repeat (rewrite <- !app_assoc in Ht; cbn [app] in Ht).
+    assert (Hx0 : ident_char x0 = true). { rewrite Enm in Hid. apply Forall_inv in Hid. exact Hid. }
+    pose proof Ht as Ht0. rewrite Enm in Ht0. cbn [app] in Ht0. apply tail_is_cons in Ht0. destruct Ht0 as (Hg & _ & Hi & _).
+    apply ident_range in Hx0.
+    assert (Es : symbol_start b c i = Ok (set_unq c true) i tt).
+    { unfold symbol_start. replace (i =? blen b) with false by lia. rewrite Hg.
+      replace (x0 =? 34) with false by lia. replace (x0 =? 46) with false by lia. reflexivity. }
+    destruct (match_symbol_unquoted fl b (set_unq c true) i (pf_name fd) (sp1 F) (tx ++ rest) eq_refl Ht (wsp_sp1 F) Hstop (cok_set_unq _ _ _ Hc))
+      as (c2 & p2 & Em & Hc2 & Ht2 & Hp2).
+    exists (set_unq c true), i, c2, p2. split; [assumption|]. split; [assumption|]. split; [apply Hc|].
+    split; [|split; [assumption|split; [assumption|lia]]].
+    eapply (find_field_hit b _ i fd 58); try eassumption; [reflexivity|lia].
+  - (* "name": value *)
+    cbn [app] in Ht; repeat (rewrite <- !app_assoc in Ht; cbn [app] in Ht).
+    pose proof Ht as Ht0. apply tail_is_cons in Ht0. destruct Ht0 as (Hg & Ht1 & Hi & _).
+    assert (Es : symbol_start b c i = Ok (set_unq c false) (i + 1) tt).
+    { unfold symbol_start. replace (i =? blen b) with false by lia. rewrite Hg. reflexivity. }
+    destruct (match_symbol_quoted fl b (set_unq c false) (i + 1) (pf_name fd) (sp1 F) (tx ++ rest) eq_refl Ht1 (wsp_sp1 F) Hstop (cok_set_unq _ _ _ Hc))
+      as (c2 & p2 & Em & Hc2 & Ht2 & Hp2).
+    exists (set_unq c false), (i + 1), c2, p2. split; [assumption|]. split; [assumption|]. split; [apply Hc|].
+    split; [|split; [assumption|split; [assumption|lia]]].
+    eapply (find_field_hit b _ (i + 1) fd 34); try eassumption; [reflexivity|lia].
+Qed.
+
+Lemma tfinish_ok flds c q s fr : fr_inv fr ->
+  (forall fd, In fd flds -> pf_req fd = true -> In (pf_id fd) (map fst (vals fr))) ->
+  len (vals fr) <= len flds -> 15 * len flds + 4 <= 65535 ->
+  tfinish flds c q s fr = POk c q (s ++ [CTable (adds fr)]) (length s, VTable (order_vals flds (vals fr)), S (dmax fr)).
+Proof.
+  intros [Hi1 Hi2] Hreq Hlen Hsize. unfold tfinish.
+  assert (R : required_ok flds (adds fr) = true).
+  { unfold required_ok. apply forallb_forall. intros fd Hin. destruct (pf_req fd) eqn:Er; [|reflexivity]. cbn [negb orb].
+    apply has_id_in. rewrite Hi1. apply Hreq; assumption. }
+  rewrite R. cbn [negb].
+  assert (Hl : len (adds fr) = len (vals fr)).
+  { assert (H := f_equal (@length Z) Hi1). rewrite !map_length in H. lia. }
+  pose proof (place_end_small (adds fr) 0 Hi2 ltac:(lia) ltac:(lia)).
+  replace (65535 <? place_end (adds fr) 0 + 4) with false by lia. reflexivity.
+Qed.
+
+Lemma pfields_printed t flds lvl plvl : names_ok flds -> NoDup (map pf_id flds) -> 15 * len flds + 4 <= 65535 ->
+  forall its bodies it body fuel b c i s fr wsT restT,
+  Forall2 (member_ok t flds lvl plvl) (it :: its) (body :: bodies) ->
+  NoDup (map (fun it => pf_id (fst it)) (it :: its)) ->
+  (forall it', In it' (it :: its) -> ~ In (pf_id (fst it')) (map fst (vals fr))) ->
+  fr_inv fr ->
+  tail_is b i (body ++ tail_text lvl bodies ++ wsT ++ restT) -> wsp wsT -> stop restT -> cok fl c ->
+  Z.of_nat fuel >= 2 * (blen b - i) + 1 ->
+  (forall fd, In fd flds -> pf_req fd = true ->
+     In (pf_id fd) (map fst (vals fr ++ flat_map (reparse_item (reparse_table F PS fa_of k) fa_of) (it :: its)))) ->
+  len (vals fr) + len (it :: its) <= len flds ->
+  exists c' p s' r d,
+    pfields sp_int maxlvl PS b fuel flds plvl c i s fr =
+      POk c' p s' (r, VTable (order_vals flds (vals fr ++ flat_map (reparse_item (reparse_table F PS fa_of k) fa_of) (it :: its))), d) /\
+    cok fl c' /\ tail_is b p restT.
+Proof.
+  intros Hnames Hnd Hsize.
+  induction its as [|it2 its' IH]; intros bodies it body fuel b c i s fr wsT restT H2 Hndi Hfresh Hfi Ht HwT Hst Hc Hf Hreq Hlen;
+    (destruct fuel as [|f]; [pose proof (tail_is_range _ _ _ Ht); lia|]); rewrite pfields_step;
+    inversion H2 as [|? ? ? ? Hm H2']; subst; destruct it as [fd x].
+  - inversion H2'; subst. cbn [tail_text] in Ht.
+    destruct (dispatch_member t flds lvl plvl fd x body b c i _ Hnames Hm Ht Hc)
+      as (tx & c1 & p1 & c2 & p2 & Hitem & Es & Hc1 & Ef & Hc2 & Ht2 & Hp2).
+    rewrite Es, lift_Ok by assumption. cbv zeta. rewrite Ef, lift_Ok by apply Hc2.
+    cbn [app] in Ht2; repeat (rewrite <- !app_assoc in Ht2; cbn [app] in Ht2).
+    destruct (pvalue_printed t (lvl + 1) plvl fd x tx Hitem f b c2 p2 s fr (nl F lvl) (125 :: wsT ++ restT) Ht2 (wsp_nl F lvl)
+                ltac:(cbn; tauto) Hc2 ltac:(lia) Hfi (Hfresh _ (or_introl eq_refl)))
+      as (c3 & p3 & s3 & fr3 & ws' & Ev & Hc3 & Hws' & Ht3 & Hfi3 & Hvals).
+    rewrite Ev.
+    destruct (delim_end_close fl 125 JE_unbalanced_object b c3 p3 ws' wsT restT Ht3 Hws' HwT ltac:(lia) ltac:(lia) Hst Hc3)
+      as (c4 & p4 & Ee & Hc4 & Ht4 & _).
+    unfold object_end. rewrite Ee, lift_Ok by apply Hc4.
+    cbn [flat_map] in Hreq |- *. rewrite app_nil_r in Hreq |- *. rewrite <- Hvals in Hreq |- *.
+    rewrite tfinish_ok; try assumption.
+    + eexists c4, p4, _, _, _. split; [reflexivity|auto].
+    + rewrite Hvals, app_length. destruct (ri_one (reparse_table F PS fa_of k) fa_of fd x) as [->|(v & ->)]; cbn [length] in *; lia.
+  - inversion H2' as [|? body2 ? bodies' Hm2 H2'']; subst. cbn [tail_text] in Ht.
+    destruct (dispatch_member t flds lvl plvl fd x body b c i _ Hnames Hm Ht Hc)
+      as (tx & c1 & p1 & c2 & p2 & Hitem & Es & Hc1 & Ef & Hc2 & Ht2 & Hp2).
+    rewrite Es, lift_Ok by assumption. cbv zeta. rewrite Ef, lift_Ok by apply Hc2.
+    cbn [app] in Ht2; repeat (rewrite <- !app_assoc in Ht2; cbn [app] in Ht2).
+    destruct (pvalue_printed t (lvl + 1) plvl fd x tx Hitem f b c2 p2 s fr []
+                (44 :: nl F (lvl + 1) ++ body2 ++ tail_text lvl bodies' ++ wsT ++ restT) Ht2 ltac:(constructor)
+                ltac:(cbn; tauto) Hc2 ltac:(lia) Hfi (Hfresh _ (or_introl eq_refl)))
+      as (c3 & p3 & s3 & fr3 & ws' & Ev & Hc3 & Hws' & Ht3 & Hfi3 & Hvals).
+    rewrite Ev.
+    assert (Hh2 : hd_ok 125 (body2 ++ tail_text lvl bodies' ++ wsT ++ restT)).
+    { pose proof (member_hd _ _ _ _ _ _ Hm2) as Hh. destruct body2; [contradiction|exact Hh]. }
+    destruct (delim_end_more' fl 125 JE_unbalanced_object b c3 p3 ws' (nl F (lvl + 1)) _ Ht3 Hws' (wsp_nl F _) Hh2 Hc3)
+      as (c4 & p4 & Ee & Hc4 & Ht4 & Hp4).
+    unfold object_end. rewrite Ee, lift_Ok by apply Hc4.
+    pose proof (tail_is_range _ _ _ Ht3) as R3. pose proof (tail_is_range _ _ _ Ht2) as R2.
+    rewrite !app_length in R2, R3. cbn [length] in R2, R3. rewrite !app_length in R2, R3.
+    change (NoDup (pf_id fd :: map (fun it => pf_id (fst it)) (it2 :: its'))) in Hndi.
+    apply NoDup_cons_iff in Hndi. destruct Hndi as [Hni Hndi'].
+    destruct (IH bodies' it2 body2 f b c4 p4 s3 fr3 wsT restT H2' Hndi') as (c5 & p5 & s5 & r5 & d5 & E5 & Hc5 & Ht5); try assumption.
+    + (* the ids still to come are not in the frame *)
+      intros it' Hin'. rewrite Hvals, map_app, in_app_iff. intros [Hold|Hnew].
+      * exact (Hfresh it' (or_intror Hin') Hold).
+      * destruct (ri_one (reparse_table F PS fa_of k) fa_of fd x) as [Er|(v & Er)]; rewrite Er in Hnew; cbn in Hnew; [exact Hnew|].
+        destruct Hnew as [Eq|[]]. apply Hni. rewrite Eq. apply (in_map (fun it => pf_id (fst it)) _ _ Hin').
+    + lia.
+    + rewrite Hvals, <- app_assoc. exact Hreq.
+    + rewrite Hvals, app_length. destruct (ri_one (reparse_table F PS fa_of k) fa_of fd x) as [->|(v & ->)]; cbn [length] in *; lia.
+    + exists c5, p5, s5, r5, d5. rewrite E5, Hvals, <- app_assoc. auto.
+Qed.
+
+(* ------------------------------------------------------------------ a whole table *)
+Lemma table_facts t flds : nth_error PS t = Some flds ->
+  (forall fd, In fd flds -> pfield_okb fd = true) /\ NoDup (map pf_id flds) /\ names_ok flds /\
+  15 * len flds + 4 <= 65535 /\ (forall fd, In fd flds -> name_okb (pf_name fd) = true) /\
+  (forall fd ty d, In fd flds -> pf_kind fd = PScalar ty d -> scalar_okb ty d = true /\ pf_req fd = false).
+Proof.
+  intros Et. apply nth_error_In in Et.
+  unfold pschema_okb in HPS. rewrite forallb_forall in HPS. specialize (HPS _ Et).
+  unfold rt_schema_okb in HRT. rewrite forallb_forall in HRT. specialize (HRT _ Et).
+  unfold ptable_okb in HPS. apply andb_true_iff in HPS. destruct HPS as [H1 _]. apply andb_true_iff in H1. destruct H1 as [H1 H2].
+  unfold rt_table_okb in HRT. apply andb_true_iff in HRT. destruct HRT as [R1 R4]. apply andb_true_iff in R1. destruct R1 as [R1 R3].
+  apply andb_true_iff in R1. destruct R1 as [R1 R2].
+  rewrite forallb_forall in H1, R1, R4.
+  split; [exact H1|]. split; [apply nodupb_NoDup; exact H2|]. split.
+  { split; [|exact R2]. apply Forall_forall. intros fd Hin. apply (name_okb_facts _ (R1 fd Hin)). }
+  split; [lia|]. split; [exact R1|].
+  intros fd ty d Hin Ek. specialize (R4 fd Hin). rewrite Ek in R4. apply andb_true_iff in R4. destruct R4 as [A B].
+  split; [exact A|]. destruct (pf_req fd); [discriminate|reflexivity].
+Qed.
+
+Lemma tail_text_eq lvl bodies :
+  flat_map (fun y => 44 :: y) (map (app (nl F (lvl + 1))) bodies) ++ nl F lvl ++ [125] = tail_text lvl bodies.
+Proof.
+  induction bodies as [|b0 r IH]; [reflexivity|]. cbn [map flat_map tail_text]. rewrite <- IH.
+  cbn [app]. rewrite <- !app_assoc. reflexivity.
+Qed.
+
+Lemma order_vals_nil flds : order_vals flds [] = [].
+Proof. unfold order_vals. induction flds as [|fd r IH]; cbn; auto. Qed.
+
+Lemma map_flat_map_fst_in (ri : pfield * value -> list (Z * value)) l it v :
+  In it l -> ri it = [(pf_id (fst it), v)] -> In (pf_id (fst it)) (map fst (flat_map ri l)).
+Proof.
+  intros Hin E0. apply in_map_iff. exists (pf_id (fst it), v). split; [reflexivity|]. apply in_flat_map. exists it. split; [assumption|].
+  rewrite E0. left. reflexivity.
+Qed.
+
+Lemma ptable_printed : table_spec (S k).
+Proof.
+  intros t lvl plvl v text Hp Hw Hn fuel b c i s ws rest Ht Hws Hst Hc Hf.
+  cbn [print_table wt_table need_table reparse_table] in *.
+  destruct (nth_error PS t) as [flds|] eqn:Et; [|discriminate]. destruct v as [| | |fields| | | | |]; try discriminate.
+  destruct (table_facts t flds Et) as (Hfok & Hnd & Hnames & Hsize & Hnmok & Hdef).
+  set (items := table_items F flds fields) in *.
+  destruct (opt_all _) as [its|] eqn:Eits; [|discriminate]. inversion Hp; subst text. clear Hp.
+  apply opt_all_Forall2 in Eits.
+  pose proof (fold_max_nonneg (fun it : pfield * value => need_value (need_table F PS k) (fst it) (snd it)) items) as Hn0.
+  destruct fuel as [|f]; [pose proof (tail_is_range _ _ _ Ht); lia|]. rewrite ptable_step, Et.
+  replace (maxlvl <? plvl + 1) with false by lia.
+  (* membership in the item list *)
+  assert (Hitems : forall it, In it items -> In (fst it) flds /\ field_item F (fst it) fields = Some (snd it)).
+  { intros [fd x] Hin. unfold items, table_items in Hin. apply in_flat_map in Hin. destruct Hin as (fd' & Hin1 & Hin2).
+    destruct (field_item F fd' fields) eqn:Ef; [|destruct Hin2]. destruct Hin2 as [Eq|[]]. inversion Eq; subst. cbn [fst snd]. auto. }
+  rewrite forallb_forall in Hw.
+  (* every item is well typed *)
+  assert (Hwt : forall it, In it items -> wt_value F E (wt_table F PS E k) t (fst it) (snd it) = true).
+  { intros [fd x] Hin. destruct (Hitems _ Hin) as [Hfd Hfi]. cbn [fst snd] in *. specialize (Hw fd Hfd).
+    unfold field_item in Hfi. destruct (pf_kind fd) as [ty d| | | | |] eqn:Ek.
+    - destruct (assocZ (pf_id fd) fields) as [y|] eqn:Ea.
+      + destruct y; try (inversion Hfi; subst; exact Hw).
+        destruct (fl_skip_default F && list_eqb bs d); [discriminate|]. inversion Hfi; subst. exact Hw.
+      + destruct (fl_force_default F) eqn:Efd; [|discriminate]. inversion Hfi; subst.
+        apply andb_true_iff in Hw. destruct Hw as [_ Hw]. cbn [negb orb] in Hw.
+        unfold wt_value. rewrite Ek. rewrite Hw. destruct (Hdef fd ty d Hfd Ek) as [-> _]. reflexivity.
+    - rewrite Hfi in Hw. exact Hw.
+    - rewrite Hfi in Hw. exact Hw.
+    - rewrite Hfi in Hw. exact Hw.
+    - rewrite Hfi in Hw. exact Hw.
+    - rewrite Hfi in Hw. exact Hw. }
+  (* bodies of the members *)
+  assert (Hbod : forall l r, Forall2 (fun (it : pfield * value) b0 =>
+                   match print_value F E (print_table F PS E k) t (fst it) (lvl + 1) (snd it) with
+                   | Some tx => Some (pname F (lvl + 1) (pf_name (fst it)) ++ tx) | None => None end = Some b0) l r ->
+                 (forall it, In it l -> In it items) ->
+                 exists bodies, r = map (app (nl F (lvl + 1))) bodies /\ Forall2 (member_ok t flds lvl (plvl + 1)) l bodies).
+  { induction 1 as [|it b0 l r Hb Hr IH]; intros Hsub; [exists []; split; [reflexivity|constructor]|].
+    destruct IH as (bodies & -> & Hm); [intros; apply Hsub; right; assumption|].
+    destruct (print_value _ _ _ _ _ _ _) as [tx|] eqn:Epv; [|discriminate]. inversion Hb; subst b0.
+    exists ((psymbol F (pf_name (fst it)) ++ 58 :: sp1 F ++ tx) :: bodies). split.
+    - cbn [map]. unfold pname. rewrite <- !app_assoc. reflexivity.
+    - constructor; [|exact Hm]. pose proof (Hsub it (or_introl eq_refl)) as Hin. destruct (Hitems _ Hin) as [Hfd _].
+      split; [exact Hfd|]. split; [apply Hnmok; exact Hfd|]. exists tx. split; [|reflexivity].
+      split; [apply Hfok; exact Hfd|]. split; [exact Epv|]. split; [apply Hwt; exact Hin|].
+      pose proof (fold_max_ge (fun it : pfield * value => need_value (need_table F PS k) (fst it) (snd it)) items it Hin) as G.
+      cbn beta in G. lia. }
+  destruct (Hbod items its Eits ltac:(auto)) as (bodies & -> & Hmem). clear Hbod.
+  destruct items as [|it items'] eqn:Eitems.
+  - (* no member: "{" newline "}" *)
+    inversion Hmem; subst. norm_app Ht.
+    destruct (delim_start_empty fl 123 125 JE_expected_object b c i (nl F lvl) ws rest Ht (wsp_nl F lvl) Hws ltac:(lia) Hst Hc)
+      as (c1 & p & E1 & Hc1 & Ht1 & _).
+    unfold object_start. rewrite E1, lift_Ok by apply Hc1.
+    rewrite tfinish_ok; [| apply fr_inv_0 | | cbn; lia | assumption].
+    + cbn [flat_map vals frame0]. eexists c1, p, _, _, _. split; [|auto].
+      rewrite order_vals_nil. reflexivity.
+    + (* nothing is required *)
+      intros fd Hfd Hreq. exfalso. specialize (Hw fd Hfd).
+      destruct (assocZ (pf_id fd) fields) as [y|] eqn:Ea; [|rewrite Hreq in Hw; discriminate].
+      assert (Hin : In (fd, y) (table_items F flds fields)).
+      { unfold table_items. apply in_flat_map. exists fd. split; [assumption|].
+        unfold field_item. rewrite Ea. destruct (pf_kind fd) as [ty d| | | | |] eqn:Ek; try (left; reflexivity).
+        destruct (Hdef fd ty d Hfd Ek). congruence. }
+      fold items in Hin. rewrite Eitems in Hin. destruct Hin.
+  - inversion Hmem as [|? body ? bodies' Hm1 Hmem']; subst.
+    cbn [map commas] in Ht. unfold pend in Ht. rewrite <- !app_assoc in Ht. rewrite tail_text_eq in Ht.
+    cbn [app] in Ht; repeat (rewrite <- !app_assoc in Ht; cbn [app] in Ht).
+    assert (Hh : hd_ok 125 (body ++ tail_text lvl bodies' ++ ws ++ rest)).
+    { pose proof (member_hd _ _ _ _ _ _ Hm1) as Hh. destruct body; [contradiction|exact Hh]. }
+    destruct (delim_start_more' fl 123 125 JE_expected_object b c i (nl F (lvl + 1)) _ Ht (wsp_nl F _) Hh Hc) as (c1 & E1 & Hc1 & Ht1).
+    unfold object_start. rewrite E1, lift_Ok by apply Hc1.
+    assert (Hndi : NoDup (map (fun it : pfield * value => pf_id (fst it)) (it :: items'))).
+    { rewrite <- Eitems. unfold items, table_items. apply NoDup_flat_map_ids; [|exact Hnd].
+      intros fd. destruct (field_item F fd fields); [right; eexists; reflexivity | left; reflexivity]. }
+    destruct (pfields_printed t flds lvl (plvl + 1) Hnames Hnd Hsize items' bodies' it body f b c1 (i + 1 + len (nl F (lvl + 1))) s frame0 ws rest Hmem Hndi)
+      as (c' & p & s' & r & d & E2 & Hc' & Ht'); try assumption.
+    + intros it' _. cbn. tauto.
+    + apply fr_inv_0.
+    + pose proof (tail_is_range _ _ _ Ht). lia.
+    + (* required fields are members that are added *)
+      intros fd Hfd Hreq. cbn [vals frame0 app]. specialize (Hw fd Hfd).
+      destruct (assocZ (pf_id fd) fields) as [y|] eqn:Ea; [|rewrite Hreq in Hw; discriminate].
+      assert (Hk : forall ty d, pf_kind fd <> PScalar ty d). { intros ty d Ek. destruct (Hdef fd ty d Hfd Ek). congruence. }
+      assert (Hin : In (fd, y) (it :: items')).
+      { rewrite <- Eitems. unfold items, table_items. apply in_flat_map. exists fd. split; [assumption|].
+        unfold field_item. rewrite Ea. destruct (pf_kind fd) as [ty d| | | | |] eqn:Ek; try (left; reflexivity). exfalso. eapply Hk; reflexivity. }
+      assert (Hri : exists v, reparse_item (reparse_table F PS fa_of k) fa_of (fd, y) = [(pf_id fd, v)]).
+      { unfold reparse_item. destruct (pf_kind fd) as [ty d| | | | |] eqn:Ek; [exfalso; eapply Hk; reflexivity| | | | |];
+          destruct y; eexists; reflexivity. }
+      destruct Hri as (v & Hri). exact (map_flat_map_fst_in _ _ (fd, y) v Hin Hri).
+    + rewrite <- Eitems. cbn [vals frame0 length]. unfold items, table_items.
+      pose proof (flat_map_length_le (fun fd => match field_item F fd fields with Some v => [(fd, v)] | None => [] end) flds) as G.
+      assert (forall x, (length (match field_item F x fields with Some v => [(x, v)] | None => [] end) <= 1)%nat)
+        by (intros x; destruct (field_item F x fields); cbn; lia).
+      specialize (G H). lia.
+    + cbn [vals frame0 app] in E2. exists c', p, s', r, d. rewrite E2. split; [|auto].
+      rewrite <- Eitems. unfold items, table_items. rewrite flat_map_flat_map.
+      rewrite order_vals_flat_map; [reflexivity| |exact Hnd].
+      intros fd. destruct (field_item F fd fields); cbn [flat_map]; [rewrite app_nil_r; apply ri_one | left; reflexivity].
+Qed.
+End Step.
+
+Theorem table_spec_all : forall k, table_spec k.
+Proof.
+  induction k as [|k IH]; [intros t lvl plvl v text Hp; discriminate|]. apply ptable_printed. exact IH.
+Qed.
+End Main.
+
+(* ------------------------------------------------------------------ a well-typed tree is printed, as bytes *)
+Lemma enum_names_ok_gen : forall E0, enums_okb E0 = true -> forall t id x nm, assocZ x (enum_of E0 t id) = Some nm -> name_okb nm = true.
+Proof.
+  induction E0 as [|[[t' id'] syms] r IH]; intros HE t id x nm H; cbn [enum_of] in H; [discriminate|].
+  unfold enums_okb in HE. cbn [forallb] in HE. apply andb_true_iff in HE. destruct HE as [HE1 HE2].
+  destruct (Nat.eqb t t' && (id =? id')); [|eapply IH; eassumption].
+  cbn [snd] in HE1. clear IH HE2. induction syms as [|[v n] s IHs]; cbn [assocZ] in H; [discriminate|].
+  cbn [forallb snd] in HE1. apply andb_true_iff in HE1. destruct HE1 as [Hn Hs].
+  destruct (x =? v); [inversion H; subst; exact Hn | auto].
+Qed.
+
+Section Prints.
+Variables (F : prflags) (PS : pschema) (E : penums).
+Hypothesis HF : prflags_ok F.
+Hypothesis HPS : pschema_okb PS = true.
+Hypothesis HRT : rt_schema_okb PS = true.
+Hypothesis HE : enums_okb E = true.
+
+Lemma items_in flds fields it : In it (table_items F flds fields) ->
+  In (fst it) flds /\ field_item F (fst it) fields = Some (snd it).
+Proof.
+  destruct it as [fd x]. intros Hin. unfold table_items in Hin. apply in_flat_map in Hin. destruct Hin as (fd' & Hin1 & Hin2).
+  destruct (field_item F fd' fields) eqn:Ef; [|destruct Hin2]. destruct Hin2 as [Eq|[]]. inversion Eq; subst. cbn [fst snd]. auto.
+Qed.
+
+Lemma items_wt k t flds fields : nth_error PS t = Some flds -> wt_table F PS E (S k) t (VTable fields) = true ->
+  forall it, In it (table_items F flds fields) -> wt_value F E (wt_table F PS E k) t (fst it) (snd it) = true.
+Proof.
+  intros Et Hw [fd x] Hin. cbn [wt_table] in Hw. rewrite Et in Hw. rewrite forallb_forall in Hw.
+  destruct (table_facts PS HPS HRT t flds Et) as (_ & _ & _ & _ & _ & Hdef).
+  destruct (items_in _ _ _ Hin) as [Hfd Hfi]. cbn [fst snd] in *. specialize (Hw fd Hfd).
+  unfold field_item in Hfi. destruct (pf_kind fd) as [ty d| | | | |] eqn:Ek.
+  - destruct (assocZ (pf_id fd) fields) as [y|] eqn:Ea.
+    + destruct y; try (inversion Hfi; subst; exact Hw).
+      destruct (fl_skip_default F && list_eqb bs d); [discriminate|]. inversion Hfi; subst. exact Hw.
+    + destruct (fl_force_default F) eqn:Efd; [|discriminate]. inversion Hfi; subst.
+      apply andb_true_iff in Hw. destruct Hw as [_ Hw]. cbn [negb orb] in Hw.
+      unfold wt_value. rewrite Ek. rewrite Hw. destruct (Hdef fd ty d Hfd Ek) as [-> _]. reflexivity.
+  - rewrite Hfi in Hw. exact Hw.
+  - rewrite Hfi in Hw. exact Hw.
+  - rewrite Hfi in Hw. exact Hw.
+  - rewrite Hfi in Hw. exact Hw.
+  - rewrite Hfi in Hw. exact Hw.
+Qed.
+
+Lemma opt_all_some {A B} (g : A -> option B) (P : B -> Prop) l :
+  (forall x, In x l -> exists y, g x = Some y /\ P y) -> exists r, opt_all (map g l) = Some r /\ Forall P r.
+Proof.
+  induction l as [|x t IH]; intros H; [exists []; split; [reflexivity|constructor]|].
+  destruct (H x (or_introl eq_refl)) as (y & Ey & Py). destruct IH as (r & Er & Pr); [intros; apply H; right; assumption|].
+  exists (y :: r). cbn [map opt_all]. rewrite Ey, Er. split; [reflexivity|constructor; assumption].
+Qed.
+
+Lemma bytes_commas its : Forall (Forall in_u8) its -> Forall in_u8 (commas its).
+Proof.
+  intros H. destruct its as [|x r]; [constructor|]. cbn [commas]. inversion H; subst. apply Forall_app. split; [assumption|].
+  clear H H2. induction r as [|y t IH]; [constructor|]. inversion H3; subst. cbn [flat_map]. constructor; [unfold in_u8; lia|].
+  apply Forall_app. split; [assumption|auto].
+Qed.
+
+Lemma bytes_nl lvl : Forall in_u8 (nl F lvl).
+Proof. pose proof (wsp_nl F lvl) as H. eapply Forall_impl; [|exact H]. intros x [->| ->]; unfold in_u8; lia. Qed.
+Lemma bytes_sp1 : Forall in_u8 (sp1 F).
+Proof. pose proof (wsp_sp1 F) as H. eapply Forall_impl; [|exact H]. intros x [->| ->]; unfold in_u8; lia. Qed.
+
+Lemma bytes_ident nm : name_okb nm = true -> Forall in_u8 nm.
+Proof.
+  intros H. apply name_okb_facts in H. destruct H as [H _]. eapply Forall_impl; [|exact H].
+  intros x Hx. apply ident_range in Hx. unfold in_u8. lia.
+Qed.
+
+Lemma bytes_psymbol nm : name_okb nm = true -> Forall in_u8 (psymbol F nm).
+Proof.
+  intros H. apply bytes_ident in H. unfold psymbol. destruct (fl_unquote F); [assumption|].
+  constructor; [unfold in_u8; lia|]. apply Forall_app. split; [assumption|]. constructor; [unfold in_u8; lia|constructor].
+Qed.
+
+Lemma bytes_sdecimal x : Forall in_u8 (NumModel.sdecimal x).
+Proof.
+  unfold NumModel.sdecimal. destruct (x <? 0) eqn:Ex.
+  - constructor; [unfold in_u8; lia|]. eapply Forall_impl; [|apply NumProofs.decimal_digits; lia].
+    intros d Hd. unfold NumProofs.digitc in Hd. unfold in_u8. lia.
+  - eapply Forall_impl; [|apply NumProofs.decimal_digits; lia]. intros d Hd. unfold NumProofs.digitc in Hd. unfold in_u8. lia.
+Qed.
+
+Lemma enum_names_ok t id x nm : assocZ x (enum_of E t id) = Some nm -> name_okb nm = true.
+Proof. apply enum_names_ok_gen. exact HE. Qed.
+
+Lemma bytes_scalar_text t id ty bs : sty_ok ty -> scalar_okb ty bs = true -> Forall in_u8 (scalar_text F (enum_of E t id) ty bs).
+Proof.
+  intros Hok Hs. unfold scalar_okb in Hs. apply andb_true_iff in Hs. destruct Hs as [Hs _].
+  apply andb_true_iff in Hs. destruct Hs as [Hl Hb]. apply byte_okb_forall in Hb.
+  unfold scalar_text. destruct (st_bool ty).
+  { destruct (le_val bs =? 0); repeat constructor; unfold in_u8; lia. }
+  assert (En : num_text ty (sval_of ty bs) = NumModel.sdecimal (sval_of ty bs)) by (apply num_text_sdecimal; [assumption|lia|assumption]).
+  destruct (fl_noenum F); [rewrite En; apply bytes_sdecimal|].
+  destruct (assocZ _ _) eqn:Ea; [|rewrite En; apply bytes_sdecimal].
+  apply bytes_psymbol. eapply enum_names_ok. exact Ea.
+Qed.
+
+Lemma wt_prints : forall k t lvl v, wt_table F PS E k t v = true ->
+  exists tx, print_table F PS E k t lvl v = Some tx /\ Forall in_u8 tx.
+Proof.
+  induction k as [|k IH]; intros t lvl v Hw; [discriminate|].
+  pose proof Hw as Hw0. cbn [wt_table print_table] in *.
+  destruct (nth_error PS t) as [flds|] eqn:Et; [|discriminate]. destruct v as [| | |fields| | | | |]; try discriminate.
+  destruct (table_facts PS HPS HRT t flds Et) as (Hfok & _ & _ & _ & Hnmok & _).
+  assert (Hw1 : wt_table F PS E (S k) t (VTable fields) = true) by (cbn [wt_table]; rewrite Et; exact Hw0).
+  destruct (opt_all_some (fun it : pfield * value =>
+              match print_value F E (print_table F PS E k) t (fst it) (lvl + 1) (snd it) with
+              | Some tx => Some (pname F (lvl + 1) (pf_name (fst it)) ++ tx) | None => None end) (Forall in_u8)
+              (table_items F flds fields)) as (its & -> & Hb).
+  { intros [fd x] Hin. pose proof (items_wt k t flds fields Et Hw1 _ Hin) as Hwv. destruct (items_in _ _ _ Hin) as [Hfd _].
+    cbn [fst snd] in *. specialize (Hfok fd Hfd). specialize (Hnmok fd Hfd).
+    assert (Hv : exists tx, print_value F E (print_table F PS E k) t fd (lvl + 1) x = Some tx /\ Forall in_u8 tx).
+    { unfold print_value, wt_value in *. unfold pfield_okb in Hfok. apply andb_true_iff in Hfok. destruct Hfok as [_ Hkd].
+      destruct (pf_kind fd) as [ty d| |ty| |t'|t'] eqn:Ek; cbn [pkind_okb] in Hkd.
+      - destruct x; try discriminate. apply andb_true_iff in Hwv. destruct Hwv as [Hs _]. eexists. split; [reflexivity|].
+        apply bytes_scalar_text; assumption.
+      - destruct x; try discriminate. eexists. split; [reflexivity|]. apply byte_okb_forall in Hwv.
+        apply quoted_bytes. apply body_bytes. exact Hwv.
+      - destruct x; try discriminate. apply andb_true_iff in Hwv. destruct Hwv as [Hes _]. eexists. split; [reflexivity|].
+        constructor; [unfold in_u8; lia|]. apply Forall_app. split.
+        + apply bytes_commas. apply Forall_forall. intros y Hy. apply in_map_iff in Hy. destruct Hy as (e & <- & He).
+          apply Forall_app. split; [apply bytes_nl|]. rewrite forallb_forall in Hes. specialize (Hes e He).
+          apply andb_true_iff in Hes. apply bytes_scalar_text; tauto.
+        + unfold pend. apply Forall_app. split; [apply bytes_nl|repeat constructor; unfold in_u8; lia].
+      - destruct x; try discriminate. destruct (strvec_shape _ Hwv) as (strs & -> & Hstrs).
+        destruct (opt_all_some (fun x => match x with VString s => Some (nl F (lvl + 1 + 1) ++ print_string s) | _ => None end) (Forall in_u8)
+                    (map VString strs)) as (its & -> & Hb).
+        { intros y Hy. apply in_map_iff in Hy. destruct Hy as (s0 & <- & Hs0). eexists. split; [reflexivity|].
+          apply Forall_app. split; [apply bytes_nl|]. apply quoted_bytes. apply body_bytes. rewrite Forall_forall in Hstrs. exact (Hstrs _ Hs0). }
+        eexists. split; [reflexivity|]. constructor; [unfold in_u8; lia|]. apply Forall_app. split; [apply bytes_commas; exact Hb|].
+        unfold pend. apply Forall_app. split; [apply bytes_nl|repeat constructor; unfold in_u8; lia].
+      - destruct x; try discriminate. apply IH. exact Hwv.
+      - destruct x; try discriminate.
+        destruct (opt_all_some (print_table F PS E k t' (lvl + 1 + 1)) (Forall in_u8) elems) as (its & -> & Hb).
+        { intros y Hy. apply IH. rewrite forallb_forall in Hwv. auto. }
+        eexists. split; [reflexivity|]. constructor; [unfold in_u8; lia|]. apply Forall_app. split; [apply bytes_commas; exact Hb|].
+        unfold pend. apply Forall_app. split; [apply bytes_nl|repeat constructor; unfold in_u8; lia]. }
+    destruct Hv as (tx & -> & Hb). eexists. split; [reflexivity|]. unfold pname.
+    apply Forall_app. split; [|exact Hb]. apply Forall_app. split; [apply bytes_nl|]. apply Forall_app. split; [apply bytes_psymbol; exact Hnmok|].
+    constructor; [unfold in_u8; lia|apply bytes_sp1]. }
+  eexists. split; [reflexivity|]. constructor; [unfold in_u8; lia|]. apply Forall_app. split; [apply bytes_commas; exact Hb|].
+  unfold pend. apply Forall_app. split; [apply bytes_nl|repeat constructor; unfold in_u8; lia].
+Qed.
+End Prints.
+
+(* ------------------------------------------------------------------ the document: print_root then parse_root *)
+Definition fa_flag (flags : Z) : bool := negb (Z.land flags JF_force_add =? 0).
+
+Theorem document_round_trip F PS E maxlvl pmax root v flags idw :
+  pschema_okb PS = true -> rt_schema_okb PS = true -> enums_okb E = true -> 1 <= maxlvl ->
+  wt_table F PS E (Z.to_nat (pmax - 1)) root v = true ->
+  1 + need_table F PS (Z.to_nat (pmax - 1)) root v <= maxlvl ->
+  exists text c sc d,
+    print_root F PS E pmax root v = Some text /\
+    parse_root sp_int maxlvl PS (of_list text) root flags idw =
+      POk c (len text) sc (reparse_table F PS (fa_flag flags) (Z.to_nat (pmax - 1)) root v, d) /\
+    cerr c = 0.
+Proof.
+  intros HPS HRT HE Hm Hw Hn. set (k := Z.to_nat (pmax - 1)) in *.
+  destruct (wt_prints F PS E HPS HRT HE k root 0 v Hw) as (tx & Hp & Hb).
+  set (last := if 0 <? fl_indent F then [10] else []).
+  assert (Hwl : wsp last) by (unfold last; destruct (0 <? fl_indent F); repeat constructor; left; reflexivity).
+  assert (Hbl : Forall in_u8 (tx ++ last)).
+  { apply Forall_app. split; [assumption|]. unfold last. destruct (0 <? fl_indent F); repeat constructor; unfold in_u8; lia. }
+  exists (tx ++ last). unfold print_root. fold k. rewrite Hp. fold last.
+  pose proof (tail_is_of_list (tx ++ last) Hbl) as Ht.
+  set (b := of_list (tx ++ last)) in *.
+  replace (tx ++ last) with (tx ++ last ++ []) in Ht by (rewrite app_nil_r; reflexivity).
+  destruct (table_spec_all F PS E maxlvl flags HPS HRT k root 0 1 v tx Hp Hw ltac:(lia) (parser_fuel b) b (ctx_init flags) 0 []
+              last [] Ht Hwl I (cok_init flags)) as (c' & p & s' & r & d & E1 & Hc' & Ht').
+  { unfold parser_fuel. lia. }
+  unfold parse_root, parse_root_fuel. replace (maxlvl <? 1) with false by lia. rewrite E1.
+  cbn [tail_is] in Ht'. destruct Ht' as [_ Hp'].
+  eexists c', _, d. split; [reflexivity|]. split; [|apply Hc'].
+  unfold fa_of, fa_flag. f_equal. subst p. unfold b. cbn [blen of_list]. reflexivity.
+Qed.
+
+(* ------------------------------------------------------------------ examples and witnesses *)
+(* the fragment tables of gen/c04_schema.fbs: 0 = Leaf { n:long; s:string; c:Color = Green }, 1 = Rec { r:Rec; n:int; k:[Rec] },
+   2 = Req { a:string (required); b:[int] (required); c:Leaf (required); d:int } *)
+Definition ex_i64 : sty := {| st_size := 8; st_signed := true; st_bool := false |}.
+Definition ex_i8 : sty := {| st_size := 1; st_signed := true; st_bool := false |}.
+Definition rt_ps : pschema :=
+  [ [ {| pf_name := [110]; pf_id := 0; pf_req := false; pf_kind := PScalar ex_i64 [0;0;0;0;0;0;0;0] |};
+      {| pf_name := [115]; pf_id := 1; pf_req := false; pf_kind := PString |};
+      {| pf_name := [99]; pf_id := 2; pf_req := false; pf_kind := PScalar ex_i8 [2] |} ];
+    [ {| pf_name := [114]; pf_id := 0; pf_req := false; pf_kind := PTable 1 |};
+      {| pf_name := [110]; pf_id := 1; pf_req := false; pf_kind := PScalar ex_i32 [0;0;0;0] |};
+      {| pf_name := [107]; pf_id := 2; pf_req := false; pf_kind := PVecTable 1 |} ];
+    [ {| pf_name := [97]; pf_id := 0; pf_req := true; pf_kind := PString |};
+      {| pf_name := [98]; pf_id := 1; pf_req := true; pf_kind := PVecScalar ex_i32 |};
+      {| pf_name := [99]; pf_id := 2; pf_req := true; pf_kind := PTable 0 |};
+      {| pf_name := [100]; pf_id := 3; pf_req := false; pf_kind := PScalar ex_i32 [0;0;0;0] |} ] ].
+(* enum Color : byte { Red = 1, Green, Blue = 7 } on Leaf.c *)
+Definition rt_enums : penums := [ (0%nat, 2, [(1, [82;101;100]); (2, [71;114;101;101;110]); (7, [66;108;117;101])]) ].
+
+Lemma rt_ps_ok : pschema_okb rt_ps = true /\ rt_schema_okb rt_ps = true /\ enums_okb rt_enums = true.
+Proof. split; [|split]; vm_compute; reflexivity. Qed.
+
+(* Req { a: the bytes q, quote, newline, 0xe9; b: [-2147483648, 7]; c: Leaf { n: -9223372036854775808, s: empty, c: 9 }; d: 0 (present, = default) } *)
+Definition rt_tree : value :=
+  VTable [ (0, VString [113; 34; 10; 233]);
+           (1, VVec [[0;0;0;128]; [7;0;0;0]]);
+           (2, VTable [ (0, VBytes [0;0;0;0;0;0;0;128]); (1, VString []); (2, VBytes [9]) ]);
+           (3, VBytes [0;0;0;0]) ].
+Definition rt_flags_pretty : prflags :=
+  {| fl_unquote := true; fl_noenum := false; fl_skip_default := false; fl_force_default := true; fl_indent := 2 |}.
+
+Lemma rt_tree_hyps : wt_table rt_flags_pretty rt_ps rt_enums (Z.to_nat (100 - 1)) 2 rt_tree = true /\
+                     1 + need_table rt_flags_pretty rt_ps (Z.to_nat (100 - 1)) 2 rt_tree <= 100.
+Proof. split; [vm_compute; reflexivity | apply Z.leb_le; vm_compute; reflexivity]. Qed.
+
+(* the round trip on it, by the theorem *)
+Lemma example_round_trip : exists text c sc d,
+  print_root rt_flags_pretty rt_ps rt_enums 100 2 rt_tree = Some text /\
+  parse_root sp_int 100 rt_ps (of_list text) 2 0 0 =
+    POk c (len text) sc (reparse_table rt_flags_pretty rt_ps (fa_flag 0) (Z.to_nat (100 - 1)) 2 rt_tree, d) /\ cerr c = 0.
+Proof.
+  destruct rt_ps_ok as (H1 & H2 & H3). destruct rt_tree_hyps as (H4 & H5).
+  apply document_round_trip; [exact H1 | exact H2 | exact H3 | lia | exact H4 | exact H5].
+Qed.
+
+(* what the printed text looks like (unquoted names, indent 2, force_default prints Leaf.c's absent ... here all present) *)
+Lemma example_text :
+  print_root rt_flags_pretty rt_ps rt_enums 100 2 rt_tree =
+  Some [123;10;32;32;97;58;32;34;113;92;34;92;110;233;34;44;10;32;32;98;58;32;91;10;32;32;32;32;45;50;49;52;55;52;56;51;54;52;56;44;10;
+        32;32;32;32;55;10;32;32;93;44;10;32;32;99;58;32;123;10;32;32;32;32;110;58;32;45;57;50;50;51;51;55;50;48;51;54;56;53;52;55;55;53;56;48;56;44;10;
+        32;32;32;32;115;58;32;34;34;44;10;32;32;32;32;99;58;32;57;10;32;32;125;44;10;32;32;100;58;32;48;10;125;10].
+Proof. vm_compute. reflexivity. Qed.
+
+(* ---- the level limit.  A chain of n Rec tables through the field r, the innermost holding what [bottom] gives *)
+Fixpoint rec_chain (n : nat) (bottom : list (Z * value)) : value :=
+  match n with O => VTable bottom | S m => VTable [(0, rec_chain m bottom)] end.
+Definition strictF : prflags := prflags0.
+
+(* 99 nested tables, the innermost with an EMPTY vector k: the printer prints it (its limit is 99 tables), the verifier's
+   budget of 100 levels suffices (99 tables + 1 vector), but the parser needs level 101 for the vector frame and
+   answers `runtime` - the printed text of a verifiable buffer is rejected.
+   (closed boolean statements evaluated by vm_compute; the existential forms are derived without further computation) *)
+Definition deep_vec_tree : value := rec_chain 98 [(2, VOffVec [])].
+Definition opt_test {A} (o : option A) (f : A -> bool) : bool := match o with Some x => f x | None => false end.
+Definition is_runtime_err {A} (r : pres A) : bool := match r with PErr e _ => e =? JE_runtime | _ => false end.
+Lemma opt_test_true {A} (o : option A) f : opt_test o f = true -> exists x, o = Some x /\ f x = true.
+Proof. destruct o; [eauto | discriminate]. Qed.
+Lemma is_runtime_err_true {A} (r : pres A) : is_runtime_err r = true -> exists loc, r = PErr JE_runtime loc.
+Proof. destruct r as [| e l |]; try discriminate. cbn. intros H. exists l. f_equal. lia. Qed.
+
+Lemma level_limit_compute :
+  wt_table strictF rt_ps rt_enums 99 1 deep_vec_tree &&
+  (1 + need_table strictF rt_ps 99 1 deep_vec_tree =? 101) &&
+  opt_test (print_root strictF rt_ps rt_enums 100 1 deep_vec_tree)
+           (fun text => is_runtime_err (parse_root sp_int 100 rt_ps (of_list text) 1 0 0)) = true.
+Proof. vm_compute. reflexivity. Qed.
+
+Lemma level_limit_witness : exists text loc,
+  wt_table strictF rt_ps rt_enums 99 1 deep_vec_tree = true /\
+  print_root strictF rt_ps rt_enums 100 1 deep_vec_tree = Some text /\
+  1 + need_table strictF rt_ps 99 1 deep_vec_tree = 101 /\
+  parse_root sp_int 100 rt_ps (of_list text) 1 0 0 = PErr JE_runtime loc.
+Proof.
+  pose proof level_limit_compute as H. apply andb_true_iff in H. destruct H as [H H3]. apply andb_true_iff in H. destruct H as [H1 H2].
+  apply opt_test_true in H3. destruct H3 as (text & Hp & H3). apply is_runtime_err_true in H3. destruct H3 as (loc & H3).
+  exists text, loc. split; [exact H1|]. split; [exact Hp|]. split; [apply Z.eqb_eq; exact H2 | exact H3].
+Qed.
+
+(* one table less and everything is fine: the hypothesis of the round-trip theorem is sharp *)
+Lemma level_limit_sharp :
+  wt_table strictF rt_ps rt_enums 99 1 (rec_chain 97 [(2, VOffVec [])]) = true /\
+  1 + need_table strictF rt_ps 99 1 (rec_chain 97 [(2, VOffVec [])]) = 100.
+Proof. split; vm_compute; reflexivity. Qed.
+
+(* the printer's own limit: 100 nested tables are not printed (deep_recursion), 99 are *)
+Lemma printer_limit_witness :
+  print_root strictF rt_ps rt_enums 100 1 (rec_chain 99 []) = None /\
+  print_root strictF rt_ps rt_enums 100 1 (rec_chain 98 []) <> None.
+Proof.
+  split; [vm_compute; reflexivity|].
+  assert (H : opt_test (print_root strictF rt_ps rt_enums 100 1 (rec_chain 98 [])) (fun _ => true) = true) by (vm_compute; reflexivity).
+  apply opt_test_true in H. destruct H as (x & -> & _). discriminate.
+Qed.
+
+(* ---- reprinting.  Leaf { n: 0 } with the scalar PRESENT: default settings print the member n with value 0; a parser
+   without force_add does not store the default; printing what it built gives the empty object *)
+Definition present_default_tree : value := VTable [(0, VBytes [0;0;0;0;0;0;0;0])].
+Lemma reprint_needs_force_add_witness :
+  wt_table strictF rt_ps rt_enums 99 0 present_default_tree = true /\
+  print_root strictF rt_ps rt_enums 100 0 present_default_tree = Some [123;34;110;34;58;48;125] /\
+  print_root strictF rt_ps rt_enums 100 0 (reparse_table strictF rt_ps false 99 0 present_default_tree) = Some [123;125].
+Proof. split; [|split]; vm_compute; reflexivity. Qed.
+
+(* ---- enum symbols: Leaf { c: 7 } prints the symbol Blue; the parser MODEL does not cover symbolic constants (W_OUT) *)
+Definition blue_text : list Z := [123;34;99;34;58;34;66;108;117;101;34;125].
+Lemma enum_symbol_outside_model :
+  print_root strictF rt_ps rt_enums 100 0 (VTable [(2, VBytes [7])]) = Some blue_text /\
+  wt_table strictF rt_ps rt_enums 99 0 (VTable [(2, VBytes [7])]) = false /\
+  parse_root sp_int 100 rt_ps (of_list blue_text) 0 0 0 = PStop W_OUT.
+Proof. split; [|split]; vm_compute; reflexivity. Qed.
+
+(* ---- bool: a byte other than 0 / 1 prints as `true` and reads back as 1 (not a well-typed tree here) *)
+Definition bool_ps : pschema := [ [ {| pf_name := [98]; pf_id := 0; pf_req := false; pf_kind := PScalar ex_bool [0] |} ] ].
+Lemma bool_byte_not_preserved :
+  print_root strictF bool_ps [] 100 0 (VTable [(0, VBytes [2])]) = Some [123;34;98;34;58;116;114;117;101;125] /\
+  match parse_root sp_int 100 bool_ps (of_list [123;34;98;34;58;116;114;117;101;125]) 0 0 0 with
+  | POk _ p _ (v, _) => (p =? 10) && match v with VTable [(0, VBytes [1])] => true | _ => false end
+  | _ => false
+  end = true.
+Proof. split; vm_compute; reflexivity. Qed.
